@@ -12,7 +12,11 @@ Three monitors, all judging what the *real* writer produced:
   ``Block.write``: the text is ASCII, parses with the independent CIF 1.1 parser
   (rv/oracle/cif11.py) and yields the supplied tags, order, loop shapes and values;
   ``_su`` columns equal sqrt(variance); every ``audit_author_role.id`` occurs exactly
-  once among the author ids and carries the role of that author.
+  once among the author ids and carries the role of that author.  The document of a call
+  into an open handle is the text between the positions of the handle before and after
+  the call; the rest of the handle (earlier documents, the caller's own text) must be
+  left untouched, and a handle that only grew is also judged on its whole text: the
+  blocks of all calls, in order.
 
 Expected values come from this module's own model of what was supplied; nothing
 here calls scippneutron to compute an expectation.
@@ -20,14 +24,21 @@ here calls scippneutron to compute an expectation.
 
 from __future__ import annotations
 
+import collections
+import copy as _copy
 import datetime as _dt
+import enum
 import io
+import itertools
 import math
 import os
 import pathlib
+import pickle
 import re
 import shutil
 import tempfile
+import types
+import warnings
 
 import numpy as np
 import scipp as sc
@@ -59,8 +70,26 @@ RULE = (
     'equal loop rows, equal chunk values), every way of saving a builder.  In (b) the pairs, columns, comments '
     'and names reach the objects through a randomly chosen one of these ways, a quarter of the columns draw '
     'their cells from 1..3 values, units of numeric values are drawn from a pool with non-ASCII spellings.  '
+    '(e) call sequences: 1..4 calls (save_cif with a block / an iterable of blocks / a builder, CIF.save, '
+    'Block.write, the same objects again) into ONE open handle with the caller writing his own text before and '
+    'between them; handles: StringIO fresh / with initial text / written into by the caller, standing at the end, at '
+    '0 or in the middle of older text, a StringIO subclass overriding write, real text files opened w / a / r+ / w+ and '
+    'a write-only object (for Block.write); every call is judged on the text between the handle positions before '
+    'and after it (everything else in the handle must be untouched), a handle that only grew also on its whole text '
+    '(all blocks of all calls, in order).  (f) save_cif(content=) in every form of an iterable of blocks: list, '
+    'tuple, generator expression / function, map, filter, iter(), reversed(), dict views, dict, deque, itertools, '
+    'numpy object array, user iterable, user one-shot iterator, set of one; positional / keyword / mixed calls; '
+    'targets str, Path, PurePosixPath, os.PathLike object, paths that exist with longer / shorter content.  '
+    '(g) forced scenarios: metadata strings given as scalar scipp variables / numpy strings / duck-typed stand-ins, '
+    'np.str_ / StrEnum / IntEnum / small and unsigned numpy integers as values, names, tags and comments; masks and '
+    'bystander coordinates on the reduced data and the calibration; caller dims named like the dims the writer uses '
+    'itself; schema= in every form; subclasses overriding write; Mapping / Iterable forms of chunk pairs, loop '
+    'columns and block content incl. one-shot ones; the same objects saved again, saved after a refused save, after '
+    'repr / == / copy / deepcopy / pickle; refusal paths (block names with blanks, loop columns that are not 1-d or '
+    'of another length, metadata variables with a unit) followed by a normal use; 600-point reduced data.  '
     'A case is trivial when all its strings are plain alphanumeric; distinct = distinct '
-    '(document kind, way of saving, value/hostility classes present, shape band, ways used) signatures'
+    '(document kind, way of saving, value/hostility classes present, shape band, ways used, form of the content, '
+    'calling convention, kind of target / handle and position in the call sequence) signatures'
 )
 ASSUMPTIONS = [
     'the CIF 1.1 grammar as implemented in rv/oracle/cif11.py (strict reading: an unquoted string may '
@@ -73,6 +102,20 @@ ASSUMPTIONS = [
     'once per program); duplicate VALUES are supplied and must all be written',
     'the text of comments is not compared with what was supplied (the property only asks that comments are '
     'ASCII and lex to comments only)',
+    'an open handle belongs to the caller: a call writes at the position the handle stands at (file semantics); '
+    'text in front of that position and behind the written fragment is the caller\'s and must not change',
+    'save_cif / CIF.save refuse real file objects on the unchanged tree (TypeError from io/_files.open_or_pass, '
+    'recorded in DESIGN.md as outside the listed properties): counted as a refusal; real files are driven '
+    'through Block.write',
+    'masks and bystander coordinates of the reduced data / calibration do not remove supplied values: every point '
+    'is expected in the file',
+    'a refused call leaves the document unchanged: after an assignment to Block.name / CIF.name refused with '
+    'ValueError the object keeps the block code it had (violations of this: kind doc_after_refused_name)',
+    'refusals the unchanged tree gives (ValueError for a block name with blanks, DimensionError for loop columns '
+    'that are not 1-d or do not match, ValidationError for metadata variables with a unit / dims) are counted, not '
+    'demanded; when such an input is accepted instead the written document is judged like any other',
+    'Block.copy() of a block without schema lists coreCIF in an audit_conform loop (unchanged tree): treated as '
+    'generated content',
 ]
 TECHNIQUE = ('runtime monitors (sys.monitoring) on _format_value, _write_comment and on every document '
              'written by save_cif / CIF.save / Block.write; independent CIF 1.1 lexer/parser as decoder')
@@ -492,10 +535,15 @@ def _ev_descr(ev):
 
 
 class XBlock:
-    def __init__(self, name, items, comment=''):
+    def __init__(self, name, items, comment='', *, strict=None, builder=None, env=None):
         self.name = name
         self.items = items
         self.comment = comment
+        # None: as the document says.  Set per block in the expectation of a handle that received
+        # several documents (low-level and builder documents mixed).
+        self.strict = strict
+        self.builder = builder
+        self.env = env
 
 
 class XDoc:
@@ -511,6 +559,7 @@ class XDoc:
         self.builder = builder      # supplied author list etc. for the role monitor
         self.heading = heading
         self.env = {}
+        self.report_as = None       # (violation kind, mechanism keys) for a forced scenario with its own kind
 
     def describe(self):
         return {'kind': self.kind, 'via': self.via, 'top_comment': self.top_comment,
@@ -623,9 +672,9 @@ def _compare_item(it: XItem, p, env):
     return out
 
 
-def check_roles(xdoc: XDoc, pb: cif11.Block):
-    """Every role id occurs exactly once among the author ids and carries that author's role."""
-    b = xdoc.builder
+def check_roles(b, pb: cif11.Block):
+    """Every role id occurs exactly once among the author ids and carries that author's role.
+    ``b``: the supplied authors {'contact': [...], 'regular': [...]} or None."""
     if b is None:
         return []
     out = []
@@ -671,6 +720,56 @@ def check_roles(xdoc: XDoc, pb: cif11.Block):
 
 
 # ======================================================================
+# handles: what a caller may pass where the signatures say "file handle" / TextIO
+# ======================================================================
+class WriteOnly:
+    """The least a text handle can be: an object with ``write``.  (``Block.write`` / ``Chunk.write`` /
+    ``Loop.write`` take "a file handle" and need nothing else.)"""
+
+    def __init__(self):
+        self.chunks = []
+
+    def write(self, s):
+        if not isinstance(s, str):
+            raise TypeError(f'write() argument must be str, not {type(s).__name__}')
+        self.chunks.append(s)
+        return len(s)
+
+
+class TeeStringIO(io.StringIO):
+    """A StringIO subclass that overrides ``write`` (and keeps its own record of what it was given)."""
+
+    def __init__(self, *a, **kw):
+        super().__init__(*a, **kw)
+        self.record = []
+
+    def write(self, s):
+        self.record.append(s)
+        return super().write(s)
+
+
+def is_handle(target):
+    return isinstance(target, io.IOBase | WriteOnly)
+
+
+def handle_state(f):
+    """(position, everything the handle holds) of a text handle; None for paths / unreadable ones."""
+    if isinstance(f, io.StringIO):
+        return f.tell(), f.getvalue()
+    if isinstance(f, WriteOnly):
+        text = ''.join(f.chunks)
+        return len(text), text
+    if isinstance(f, io.TextIOWrapper) and isinstance(getattr(f, 'name', None), str):
+        f.flush()
+        pos = f.tell()
+        with open(f.name, 'rb') as fh:
+            raw = fh.read()
+        # the workload writes ASCII through these; latin-1 keeps character offset == byte offset
+        return pos, raw.decode('latin-1')
+    return None
+
+
+# ======================================================================
 # monitors
 # ======================================================================
 class Monitors:
@@ -679,9 +778,15 @@ class Monitors:
         self.expect: XDoc | None = None
         self.culprits: list = []      # (mechanism, keys) flagged by the narrow monitors in this document
         self.refusal = None           # allowed refusal raised while writing this document
+        self.allow_exc = None         # predicate: refusals the unchanged tree is known to give for this call
         self.save_depth = 0
+        self.depth = 0                # nesting of the watched writing calls
+        self.call_state = None        # (position, text) of the handle when the outermost call began
         self.judged_docs = 0
         self.comment_pos = {}
+        self._culprit_mechs = []
+        self._report = None
+        self._where = ''
 
     # ---- token monitor ----------------------------------------------------
     def on_format_value(self, ev):
@@ -777,13 +882,14 @@ class Monitors:
             ctx.violation('comment_raised', f'_write_comment raised {type(ev.exc).__name__}: {ev.exc}',
                           {'comment': comment}, mechanism='raised')
             return
-        frag = f.getvalue()[ev.pre:]
+        frag = f.getvalue()[ev.pre:f.tell()]      # the handle may stand in front of older text
         ctx.event('comment')
         case = {'comment': comment, 'written': frag, 'doc': self.expect.via if self.expect else None}
         if not frag.isascii():
             x = self.expect
             file_comment = (x is not None and x.kind != 'builder' and self.save_depth > 0
-                            and comment == x.top_comment and ev.pre == len(MAGIC))
+                            and comment == x.top_comment
+                            and ev.pre == (self.call_state[0] if self.call_state else 0) + len(MAGIC))
             mech = COMMENT_MECH if file_comment else 'non_ascii_comment'
             ctx.violation('comment_' + mech, f'comment written with non-ASCII text: {_short(frag)}', case,
                           mechanism=mech)
@@ -799,23 +905,46 @@ class Monitors:
             self.culprits.append(('comment_leaks_tokens', {}))
 
     # ---- document monitor ----------------------------------------------------
+    # The outermost watched call (save_cif / CIF.save / Block.write) notes where the handle it was
+    # given stands and what it holds; the call that actually writes is judged on the text between
+    # that position and the position after the call.  Everything else in the handle belongs to
+    # the caller (earlier documents, the caller's own text) and must be left alone.
+    def _enter(self, target):
+        if self.depth == 0:
+            try:
+                self.call_state = handle_state(target)
+            except Exception:  # noqa: BLE001
+                self.ctx.oracle_error('C14 reading the state of the handle before the call')
+                self.call_state = None
+        self.depth += 1
+
     def on_save_start(self, ev):
+        self._enter(ev.args.get('fname'))
         self.save_depth += 1
 
     def on_save_return(self, ev):
         self.save_depth -= 1
+        self.depth -= 1
         content = ev.args.get('content')
         # judge at the call that actually writes: content is a block or blocks, not a builder
         if type(content).__name__ == 'CIF':
             return
         self._judge_written(ev.args.get('fname'), ev.exc, 'save_cif')
 
+    def on_cifsave_start(self, ev):
+        self._enter(ev.args.get('fname'))
+
     def on_cifsave_return(self, ev):
+        self.depth -= 1
         # the nested save_cif has judged the text; only an exception before it is news
         if ev.exc is not None and self.judged_docs == 0:
             self._judge_written(ev.args.get('fname'), ev.exc, 'CIF.save')
 
+    def on_blockwrite_start(self, ev):
+        self._enter(ev.args.get('f'))
+
     def on_blockwrite_return(self, ev):
+        self.depth -= 1
         if self.save_depth > 0:
             return
         self._judge_written(ev.args.get('f'), ev.exc, 'Block.write')
@@ -829,32 +958,32 @@ class Monitors:
             return
         x.env['t1'] = _dt.datetime.now(_dt.timezone.utc)
         case = x.describe()
-        culprit_mechs = sorted({m for m, _ in self.culprits})
-
-        def report(category, what, **keys):
-            if culprit_mechs:
-                # the narrow monitors flagged tokens / comments of this document: one report per
-                # mechanism, so that each is classified on its own
-                # (keys hold the mechanism only: the runner keeps representatives per
-                # (kind, keys) group, so everything of high cardinality goes into the case)
-                for m in culprit_mechs:
-                    ctx.violation('doc_from_' + m, f'{where}: {what}',
-                                  dict(case, detail=dict(keys, category=category, flagged=culprit_mechs)),
-                                  mechanism=m)
-            else:
-                ctx.violation('doc_' + category, f'{where}: {what}', dict(case, detail=keys),
-                              mechanism=category)
-
+        self._set_reporter(x, case, where)
+        report = self._report
         if exc is not None:
             if exc is self.refusal:
                 ctx.count('doc.refused')
                 ctx.event('document')
                 return
+            if self.allow_exc is not None and self.allow_exc(exc):
+                self.refusal = exc
+                ctx.count('doc.refused:' + type(exc).__name__)
+                ctx.event('document')
+                return
             report('raised', f'raised {type(exc).__name__}: {exc}', exception=type(exc).__name__)
             return
+        state = self.call_state
+        if is_handle(target) and getattr(target, 'closed', False):
+            # the handle is the caller's: he reads it back / goes on writing into it
+            ctx.event('document')
+            report('handle_closed', 'the call closed the handle it was given')
+            return
         try:
-            if isinstance(target, io.StringIO):
-                text = target.getvalue()
+            if is_handle(target):
+                after = handle_state(target)
+                if state is None or after is None:
+                    ctx.count('doc.handle_not_readable')
+                    return
                 raw = None
             else:
                 with open(os.fspath(target), 'rb') as fh:
@@ -870,6 +999,64 @@ class Monitors:
                 text = raw.decode('ascii')
             except UnicodeDecodeError:
                 text = raw.decode('utf-8', 'replace')
+        else:
+            # a handle: the call writes at the position the handle stands at, nowhere else
+            (pos0, before), (pos1, now) = state, after
+            ctx.event('document.handle')
+            if pos0 > 0 or before:
+                ctx.event('document.handle_in_use')
+            case['handle'] = {'position_before': pos0, 'position_after': pos1,
+                              'held_before': before if len(before) < 600 else before[:600] + '...'}
+            bad = None
+            if now[:pos0] != before[:pos0]:
+                k = next((i for i in range(min(len(now), pos0)) if now[i] != before[i]), min(len(now), pos0))
+                bad = (f'the handle stood at position {pos0}; the text in front of it (earlier output / the '
+                       f"caller's own text) was changed at offset {k}")
+            elif pos1 < pos0:
+                bad = f'the handle stood at position {pos0} and stands at {pos1} after the call'
+            elif now[pos1:] != before[pos1:]:
+                bad = (f'text behind the written fragment [{pos0}, {pos1}) changed '
+                       f'({len(before) - min(pos1, len(before))} characters before, '
+                       f'{len(now) - pos1} after)')
+            if bad is not None:
+                case['written'] = now if len(now) < 1500 else now[:1500] + '...'
+                report('handle_position', bad)
+                return
+            text = now[pos0:pos1]
+        self.judge_text(x, text, case)
+
+    def _set_reporter(self, x, case, where):
+        ctx = self.ctx
+        culprit_mechs = sorted({m for m, _ in self.culprits})
+
+        def report(category, what, **keys):
+            mechs = self._culprit_mechs
+            if x.report_as is not None:
+                kind, mkeys = x.report_as
+                ctx.violation(kind, f'{where}: {what}',
+                              dict(case, detail=dict(keys, category=category, flagged=mechs)), **mkeys)
+            elif mechs:
+                # the narrow monitors flagged tokens / comments of this document: one report per
+                # mechanism, so that each is classified on its own
+                # (keys hold the mechanism only: the runner keeps representatives per
+                # (kind, keys) group, so everything of high cardinality goes into the case)
+                for m in mechs:
+                    ctx.violation('doc_from_' + m, f'{where}: {what}',
+                                  dict(case, detail=dict(keys, category=category, flagged=mechs)),
+                                  mechanism=m)
+            else:
+                ctx.violation('doc_' + category, f'{where}: {what}', dict(case, detail=keys),
+                              mechanism=category)
+
+        self._culprit_mechs = culprit_mechs
+        self._report = report
+        self._where = where
+
+    def judge_text(self, x, text, case):
+        """Decode ``text`` with the independent parser and compare with the expectation ``x``."""
+        ctx = self.ctx
+        report, where = self._report, self._where
+        culprit_mechs = self._culprit_mechs
         case['written'] = text if len(text) < 1500 else text[:1500] + '...'
         if not text.isascii():
             lines = text.split('\n')
@@ -878,12 +1065,12 @@ class Monitors:
                 # written to a real file: the comment monitor could not look at the fragment
                 n_top = len(x.top_comment.split('\n')) - (1 if x.top_comment.endswith('\n') else 0)
                 if all(1 <= i <= n_top and lines[i].startswith('#') for i in bad):
-                    culprit_mechs = [COMMENT_MECH]
+                    self._culprit_mechs = culprit_mechs = [COMMENT_MECH]
             report('non_ascii_output', f'output is not ASCII: line {_short(lines[bad[0]])}',
                    in_comment=lines[bad[0]].lstrip().startswith('#'))
             return
         if x.heading and not text.startswith(MAGIC):
-            report('structure', 'file does not start with the CIF 1.1 magic comment')
+            report('structure', 'the written text does not start with the CIF 1.1 magic comment')
             return
         try:
             try:
@@ -908,16 +1095,18 @@ class Monitors:
         try:
             problems = []
             if len(doc.blocks) != len(x.blocks):
-                problems.append(('structure', f'{len(x.blocks)} blocks supplied, {len(doc.blocks)} read back'))
+                problems.append(('structure', f'{len(x.blocks)} blocks supplied, {len(doc.blocks)} read back'
+                                              f' ({[b.name for b in doc.blocks][:6]})'))
             else:
                 for xb, pb in zip(x.blocks, doc.blocks, strict=True):
-                    problems += compare_block(xb, pb, x.strict, x.env)
-                    for msg in check_roles(x, pb):
+                    strict = x.strict if xb.strict is None else xb.strict
+                    builder = x.builder if xb.builder is None else xb.builder
+                    problems += compare_block(xb, pb, strict, x.env if xb.env is None else xb.env)
+                    for msg in check_roles(builder, pb):
                         problems.append(('role_ids', msg))
-                    if x.builder is not None and (x.builder['contact'] or x.builder['regular']):
-                        if any(p['role'] for p in x.builder['contact'] + x.builder['regular']):
+                    if builder is not None and (builder['contact'] or builder['regular']):
+                        if any(p['role'] for p in builder['contact'] + builder['regular']):
                             ctx.event('roles')
-            # comments never leak: every comment line of the file starts a supplied comment line
             n_su = sum(1 for b in x.blocks for it in b.items for c in it.cols if c and c[0][0] == 'su')
             if n_su:
                 ctx.event('su_column', n_su)
@@ -928,13 +1117,43 @@ class Monitors:
             cat, msg = problems[0]
             report(cat, msg, n_problems=len(problems))
 
+    def judge_handle(self, x, target, where):
+        """Everything a handle received (several calls, the caller's own text between them),
+        judged as one text: ``x`` lists the blocks of all of it, in order."""
+        ctx = self.ctx
+        self.begin(x, keep_t0=True)
+        try:
+            x.env['t1'] = _dt.datetime.now(_dt.timezone.utc)
+            case = x.describe()
+            self.culprits = []
+            self._set_reporter(x, case, where)
+            try:
+                st = handle_state(target)
+            except Exception:  # noqa: BLE001
+                ctx.oracle_error('C14 reading the handle after the calls')
+                return
+            if st is None:
+                ctx.count('doc.handle_not_readable')
+                return
+            self.judged_docs += 1
+            ctx.event('document')
+            ctx.event('document.concatenation')
+            self.judge_text(x, st[1], case)
+        finally:
+            self.end()
+
     # ---- per document bookkeeping ---------------------------------------------
-    def begin(self, xdoc):
+    def begin(self, xdoc, keep_t0=False):
         self.expect = xdoc
         self.culprits = []
         self.refusal = None
+        self.allow_exc = None
         self.judged_docs = 0
-        xdoc.env['t0'] = _dt.datetime.now(_dt.timezone.utc).replace(microsecond=0)
+        self.depth = 0
+        self.save_depth = 0
+        self.call_state = None
+        if not (keep_t0 and 't0' in xdoc.env):
+            xdoc.env['t0'] = _dt.datetime.now(_dt.timezone.utc).replace(microsecond=0)
 
     def end(self):
         x = self.expect
@@ -980,18 +1199,40 @@ def _block_name(rng):
     return s
 
 
+def str_enum_member(s):
+    """A StrEnum member whose value is ``s``: a str (``str(member) == s``) wherever a str is documented."""
+    return enum.StrEnum('Label', {'MEMBER': s}).MEMBER
+
+
+def int_enum_member(n):
+    return enum.IntEnum('Code', {'MEMBER': n}).MEMBER
+
+
 def gen_scalar(rng, cif):
     """(object to supply, expectation, class) for a chunk value."""
     r = rng.random()
     if r < 0.55:
         s = any_string(rng)
-        if rng.random() < 0.15:
+        q = rng.random()
+        if q < 0.15:
             return sc.scalar(s), ('str', s), 'str:' + string_class(s)
+        if q < 0.22:
+            return np.str_(s), ('str', s), 'np.str_:' + string_class(s)
+        if q < 0.26:
+            return str_enum_member(s), ('str', s), 'StrEnum:' + string_class(s)
         return s, ('str', s), 'str:' + string_class(s)
     if r < 0.65:
         n = int(rng.integers(-10**9, 10**9))
-        obj = [n, np.int64(n), sc.scalar(n, unit=None), sc.scalar(n, unit=_unit(rng, ('counts', 'us', 'angstrom')))][
-            int(rng.integers(0, 4))]
+        q = int(rng.integers(0, 7))
+        if q == 4:
+            n = n % 200 - 100
+            return [np.int8, np.int16, np.int32][n % 3](n), ('int', n), 'np.int_small'
+        if q == 5:
+            n = abs(n)
+            return [np.uint32, np.uint64][n % 2](n), ('int', n), 'np.uint'
+        if q == 6:
+            return int_enum_member(n), ('int', n), 'IntEnum'
+        obj = [n, np.int64(n), sc.scalar(n, unit=None), sc.scalar(n, unit=_unit(rng, ('counts', 'us', 'angstrom')))][q]
         return obj, ('int', n), 'int'
     if r < 0.8:
         x = rand_float(rng)
@@ -1031,7 +1272,12 @@ def _unit(rng, pool=VALUE_UNITS):
     return pool[int(rng.integers(0, len(pool)))]
 
 
-def gen_column(rng, n, multi_line_ok):
+# dims a caller may use for the columns of a loop, among them every name the writer uses itself
+# for the loops it builds (schema, r, author, role, cal / the dim of the reduced data) and generic ones
+LOOP_DIMS = ('row', 'r', 'x', 'schema', 'author', 'role', 'cal', 'tof', 'dspacing', 'event', 'power', 'dim_0')
+
+
+def gen_column(rng, n, multi_line_ok, dim='row'):
     """(sc.Variable, list of expectations, class)."""
     r = rng.random()
     if r < 0.45:
@@ -1040,17 +1286,17 @@ def gen_column(rng, n, multi_line_ok):
         if not multi_line_ok:
             vals = [v.replace('\n', ' ') for v in vals]
         cls = sorted({string_class(v) for v in vals})
-        return (sc.array(dims=['row'], values=vals), [('str', v) for v in vals],
+        return (sc.array(dims=[dim], values=vals), [('str', v) for v in vals],
                 ('strdup:' if dup else 'str:') + '|'.join(cls)[:60])
     if r < 0.55:
         vals, dup = _with_repeats(rng, n, lambda: int(rng.integers(-10**6, 10**6)))
-        return (sc.array(dims=['row'], values=vals, unit=None, dtype='int64'),
+        return (sc.array(dims=[dim], values=vals, unit=None, dtype='int64'),
                 [('int', int(v)) for v in vals], 'intdup' if dup else 'int')
     f32 = rng.random() < 0.3
     dt = 'float32' if f32 else 'float64'
     if r < 0.78:
         xs, dup = _with_repeats(rng, n, lambda: rand_float(rng, f32))
-        return (sc.array(dims=['row'], values=xs, dtype=dt, unit=_unit(rng)),
+        return (sc.array(dims=[dim], values=xs, dtype=dt, unit=_unit(rng)),
                 [('f32' if f32 else 'f64', x) for x in xs], dt + ('dup' if dup else ''))
 
     def fresh():
@@ -1058,26 +1304,77 @@ def gen_column(rng, n, multi_line_ok):
         return x, rand_var(rng, x, f32)
     xv, dup = _with_repeats(rng, n, fresh)
     xs, vs = [a for a, _ in xv], [b for _, b in xv]
-    return (sc.array(dims=['row'], values=xs, variances=vs, dtype=dt, unit=_unit(rng)),
+    return (sc.array(dims=[dim], values=xs, variances=vs, dtype=dt, unit=_unit(rng)),
             [('fvar', x, v, f32) for x, v in zip(xs, vs, strict=True)], 'fvar' + dt[-2:] + ('dup' if dup else ''))
 
 
 # ---- every public way of putting pairs / columns / comments / names into the objects ----
 CHUNK_WAYS = ('Chunk(dict,comment=)', 'Chunk(pairs,comment=)', 'Chunk.comment=', 'Chunk(None)+setitem',
-              'Chunk.comment=late')
-CHUNK_ADD_WAYS = ('Block.add(mapping,comment=)', 'Block.add(pairs,comment=)')
-LOOP_WAYS = ('Loop(dict,comment=)', 'Loop.comment=', 'Loop+setitem', 'Loop.comment=late')
+              'Chunk.comment=late',
+              # "Mapping[str, Any] | Iterable[tuple[str, Any]]": any mapping, any iterable, also one-shot ones
+              'Chunk(generator,comment=)', 'Chunk(zip,comment=)', 'Chunk(dict.items(),comment=)',
+              'Chunk(custom_mapping,comment=)', 'Chunk(mappingproxy,comment=)')
+CHUNK_ADD_WAYS = ('Block.add(mapping,comment=)', 'Block.add(pairs,comment=)', 'Block.add(generator,comment=)',
+                  'Block.add(custom_mapping,comment=)', 'Block.add(pairs,comment) positional')
+LOOP_WAYS = ('Loop(dict,comment=)', 'Loop.comment=', 'Loop+setitem', 'Loop.comment=late',
+             'Loop(custom_mapping,comment=)', 'Loop(columns=OrderedDict,comment=)')
+# a plain mapping as an item of a block's content ("dicts are converted to Chunk"): every Mapping
+MAPPING_WAYS = ('mapping', 'mapping:OrderedDict', 'mapping:custom', 'mapping:mappingproxy', 'mapping:UserDict')
 BLOCK_COMMENT_WAYS = ('Block(comment=)', 'Block.comment=')
 BLOCK_NAME_WAYS = ('Block(name)', 'Block.name=')
 _PLACEHOLDER_COMMENT = 'placeholder comment that is replaced before saving'
 
 
+class CustomMapping(collections.abc.Mapping):
+    """A Mapping that is not a dict."""
+
+    def __init__(self, d):
+        self._keys = list(d)
+        self._vals = [d[k] for k in self._keys]
+
+    def __getitem__(self, k):
+        try:
+            return self._vals[self._keys.index(k)]
+        except ValueError:
+            raise KeyError(k) from None
+
+    def __iter__(self):
+        return iter(self._keys)
+
+    def __len__(self):
+        return len(self._keys)
+
+
 def make_chunk(cif, way, pairs, comment):
     """-> (object for the block, keywords for Block.add, deferred comment assignment)."""
     pairs = dict(pairs)
-    if way == 'mapping':
+    if way in MAPPING_WAYS:
         assert not comment
+        if way == 'mapping:OrderedDict':
+            return collections.OrderedDict(pairs), {}, None
+        if way == 'mapping:custom':
+            return CustomMapping(pairs), {}, None
+        if way == 'mapping:mappingproxy':
+            return types.MappingProxyType(pairs), {}, None
+        if way == 'mapping:UserDict':
+            return collections.UserDict(pairs), {}, None
         return pairs, {}, None
+    if way == 'Chunk(generator,comment=)':
+        return cif.Chunk(((k, v) for k, v in pairs.items()), comment=comment), {}, None
+    if way == 'Chunk(zip,comment=)':
+        return cif.Chunk(zip(list(pairs), list(pairs.values()), strict=True), comment=comment), {}, None
+    if way == 'Chunk(dict.items(),comment=)':
+        return cif.Chunk(pairs.items(), comment=comment), {}, None
+    if way == 'Chunk(custom_mapping,comment=)':
+        return cif.Chunk(CustomMapping(pairs), comment=comment), {}, None
+    if way == 'Chunk(mappingproxy,comment=)':
+        return cif.Chunk(types.MappingProxyType(pairs), comment=comment), {}, None
+    if way == 'Block.add(generator,comment=)':
+        return ((k, v) for k, v in pairs.items()), {'comment': comment}, None
+    if way == 'Block.add(custom_mapping,comment=)':
+        return CustomMapping(pairs), {'comment': comment}, None
+    if way == 'Block.add(pairs,comment) positional':
+        return list(pairs.items()), {'comment': comment, 'positional': True}, None
     if way == 'Chunk(dict,comment=)':
         return cif.Chunk(pairs, comment=comment), {}, None
     if way == 'Chunk(pairs,comment=)':
@@ -1118,19 +1415,36 @@ def make_loop(cif, way, cols, comment):
         return obj, {}, None
     if way == 'Loop.comment=late':
         return cif.Loop(cols, comment=_PLACEHOLDER_COMMENT), {}, comment
+    if way == 'Loop(custom_mapping,comment=)':
+        return cif.Loop(CustomMapping(cols), comment=comment), {}, None
+    if way == 'Loop(columns=OrderedDict,comment=)':
+        return cif.Loop(columns=collections.OrderedDict(cols), comment=comment), {}, None
     raise AssertionError(way)
 
 
-def make_block(cif, name, name_way, comment, comment_way, entries, n_ctor):
+BLOCK_CONTENT_FORMS = ('list', 'tuple', 'generator', 'iter', 'keywords')
+
+
+def make_block(cif, name, name_way, comment, comment_way, entries, n_ctor, content_form='list'):
     """Block from ``entries`` = [(object, add keywords, deferred comment)]: the first ``n_ctor``
-    through the constructor, the others through Block.add; deferred comments are assigned to
-    the objects after they are part of the block."""
+    through the constructor (``content`` is an Iterable: ``content_form``), the others through
+    Block.add; deferred comments are assigned to the objects after they are part of the block."""
     first = [e[0] for e in entries[:n_ctor]]
     kw = {'comment': comment} if comment_way == 'Block(comment=)' else {}
-    blk = cif.Block(name if name_way == 'Block(name)' else 'placeholder', first, **kw)
+    nm = name if name_way == 'Block(name)' else 'placeholder'
+    if content_form == 'keywords':
+        blk = cif.Block(name=nm, content=first, **kw)
+    elif content_form == 'list' and not first and len(entries) % 2:
+        blk = cif.Block(nm, **kw)                   # content left at its default
+    else:
+        blk = cif.Block(nm, {'list': list, 'tuple': tuple, 'generator': lambda f: (e for e in f),
+                             'iter': iter}[content_form](first), **kw)
     if comment_way != 'Block(comment=)':
         blk.comment = comment
     for obj, add_kw, _ in entries[n_ctor:]:
+        if add_kw.get('positional'):
+            blk.add(obj, add_kw['comment'])
+            continue
         if add_kw.get('comment') == '' and len(entries) % 2:
             add_kw = {}
         blk.add(obj, **add_kw)
@@ -1146,14 +1460,131 @@ def _pick(rng, seq):
     return seq[int(rng.integers(0, len(seq)))]
 
 
-def gen_lowlevel(rng, cif, tmpdir, k):
-    """A document from Blocks / Chunks / Loops; returns (callable performing the save, XDoc)."""
-    nblocks = 2 if rng.random() < 0.2 else 1
-    via = ['save_cif:buffer', 'save_cif:path', 'Block.write'][int(rng.choice(3, p=[0.6, 0.25, 0.15]))]
+# ---- "content: Block | Iterable[Block] | CIF": every form an iterable of blocks can take ----------
+class ReIterable:
+    """A user-defined iterable (only ``__iter__``; a fresh iterator each time)."""
+
+    def __init__(self, items):
+        self._items = list(items)
+
+    def __iter__(self):
+        return iter(self._items)
+
+
+class OneShotIterator:
+    """A user-defined iterator: ``__iter__`` returns self, it can be walked once."""
+
+    def __init__(self, items):
+        self._it = iter(list(items))
+
+    def __iter__(self):
+        return self
+
+    def __next__(self):
+        return next(self._it)
+
+
+def _generator_function(items):
+    yield from items
+
+
+def _object_array(items):
+    a = np.empty(len(items), dtype=object)
+    for i, it in enumerate(items):
+        a[i] = it
+    return a
+
+
+CONTENT_FORMS = {
+    'list': list,
+    'tuple': tuple,
+    'generator_expression': lambda bs: (b for b in bs),
+    'generator_function': _generator_function,
+    'map': lambda bs: map(lambda b: b, bs),
+    'filter': lambda bs: filter(lambda b: True, bs),
+    'iter(list)': lambda bs: iter(list(bs)),
+    'iter(tuple)': lambda bs: iter(tuple(bs)),
+    'reversed(list)': lambda bs: reversed(list(bs)[::-1]),
+    'dict.values()': lambda bs: dict(enumerate(bs)).values(),
+    'dict.keys()': lambda bs: dict.fromkeys(bs).keys(),
+    'dict_of_blocks': lambda bs: dict.fromkeys(bs),
+    'deque': collections.deque,
+    'itertools.chain': lambda bs: itertools.chain(bs[:1], bs[1:]),
+    'itertools.islice': lambda bs: itertools.islice(list(bs) + list(bs), len(bs)),
+    'zip_unzipped': lambda bs: (b for b, _ in zip(bs, itertools.count(), strict=False)),
+    'numpy_object_array': _object_array,
+    'user_iterable': ReIterable,
+    'user_iterator': OneShotIterator,
+}
+CONTENT_FORM_NAMES = tuple(CONTENT_FORMS)
+SINGLE_BLOCK_FORMS = ('block', 'frozenset_of_one', 'set_of_one')
+SAVE_CIF_CONVENTIONS = ('positional', 'keywords', 'mixed')
+
+
+def make_content(form, blocks):
+    if form == 'block':
+        assert len(blocks) == 1
+        return blocks[0]
+    if form == 'frozenset_of_one':
+        return frozenset(blocks)
+    if form == 'set_of_one':
+        return set(blocks)
+    return CONTENT_FORMS[form](list(blocks))
+
+
+def call_save_cif(cif, conv, target, content, comment=''):
+    kw = {'comment': comment} if comment else {}
+    if conv == 'keywords':
+        cif.save_cif(fname=target, content=content, **kw)
+    elif conv == 'mixed':
+        cif.save_cif(target, content=content, **kw)
+    else:
+        cif.save_cif(target, content, **kw)
+
+
+def path_target(kind, tmpdir, name):
+    """A path in one of the forms "str | Path" (and os.PathLike) can take."""
+    p = os.path.join(tmpdir, name)
+    if kind == 'Path':
+        return pathlib.Path(p)
+    if kind == 'PurePosixPath':
+        return pathlib.PurePosixPath(p)
+    if kind == 'PathLike':
+        return FsPath(p)
+    if kind == 'exists_longer':
+        with open(p, 'w') as f:
+            f.write(MAGIC + 'data_old_content\n\n' + ''.join(f'_old.tag{i} old_value_{i}\n' for i in range(400)))
+        return p
+    if kind == 'exists_shorter':
+        with open(p, 'w') as f:
+            f.write('#')
+        return p
+    return p
+
+
+PATH_KINDS = ('str', 'Path', 'PurePosixPath', 'PathLike', 'exists_longer', 'exists_shorter')
+
+
+class FsPath:
+    """An os.PathLike object that is not a pathlib path."""
+
+    def __init__(self, p):
+        self._p = p
+
+    def __fspath__(self):
+        return self._p
+
+
+def gen_lowlevel(rng, cif, tmpdir, k, force_via=None, big=None, name_prefix=''):
+    """A document from Blocks / Chunks / Loops; returns (callable performing the save, XDoc).
+    The callable takes an optional open handle to write into."""
+    nblocks = [1, 1, 1, 1, 2, 2, 3][int(rng.integers(0, 7))]
+    via = force_via or ['save_cif:buffer', 'save_cif:path', 'Block.write'][int(rng.choice(3, p=[0.6, 0.25, 0.15]))]
     if via == 'Block.write':
         nblocks = 1
     blocks, xblocks, classes, ways = [], [], set(), set()
-    big = rng.random() < 0.12
+    if big is None:
+        big = rng.random() < 0.12
     for _ in range(nblocks):
         used = set()
         entries, xitems, scalars = [], [], []
@@ -1176,7 +1607,9 @@ def gen_lowlevel(rng, cif, tmpdir, k):
                     classes.add(cls)
                 pool = CHUNK_WAYS + (CHUNK_ADD_WAYS if i >= n_ctor else ())
                 if not comment and rng.random() < 0.4:
-                    way = 'mapping'
+                    way = _pick(rng, MAPPING_WAYS) if rng.random() < 0.4 else 'mapping'
+                    if way != 'mapping':
+                        ways.add(way)
                 else:
                     way = _pick(rng, pool)
                 entries.append(make_chunk(cif, way, pairs, comment))
@@ -1185,10 +1618,11 @@ def gen_lowlevel(rng, cif, tmpdir, k):
                 nrows = int(rng.integers(9, 51)) if big else int(rng.integers(1, 9))
                 ncols = int(rng.integers(1, 7))
                 multi = rng.random() < 0.5
+                dim = _pick(rng, LOOP_DIMS) if rng.random() < 0.5 else 'row'
                 cols, tags, evs = {}, [], []
                 for _ in range(ncols):
                     tag = _tag(rng, used)
-                    var, ev, cls = gen_column(rng, nrows, multi)
+                    var, ev, cls = gen_column(rng, nrows, multi, dim)
                     cols[tag] = var
                     tags.append(tag)
                     evs.append(ev)
@@ -1199,33 +1633,76 @@ def gen_lowlevel(rng, cif, tmpdir, k):
                 classes.add(f'loop{"L" if nrows > 8 else "S"}x{ncols}')
             if comment:
                 ways.add(way)
-        name = _block_name(rng)
+        name = name_prefix + _block_name(rng)
         bcomment = hostile_comment(rng) if rng.random() < 0.3 else ''
         name_way, bc_way = _pick(rng, BLOCK_NAME_WAYS), _pick(rng, BLOCK_COMMENT_WAYS)
-        blocks.append(make_block(cif, name, name_way, bcomment, bc_way, entries, n_ctor))
+        cform = _pick(rng, BLOCK_CONTENT_FORMS) if rng.random() < 0.4 else 'list'
+        blocks.append(make_block(cif, name, name_way, bcomment, bc_way, entries, n_ctor, cform))
         xblocks.append(XBlock(name, xitems, bcomment))
         ways.add(name_way)
+        if cform != 'list':
+            ways.add('Block(content=' + cform + ')')
         if bcomment:
             ways.add(bc_way)
     top = hostile_comment(rng) if (via != 'Block.write' and rng.random() < 0.4) else ''
     trivial = all(c in ('str:plain', 'int') for c in classes if not c.startswith('loop')) and not top
+    # how the blocks are handed to save_cif
+    if nblocks == 1 and rng.random() < 0.6:
+        form = 'block' if rng.random() < 0.9 else _pick(rng, SINGLE_BLOCK_FORMS)
+    else:
+        form = _pick(rng, CONTENT_FORM_NAMES)
+    conv = _pick(rng, SAVE_CIF_CONVENTIONS) if rng.random() < 0.3 else 'positional'
+    pkind = _pick(rng, PATH_KINDS)
+    if via == 'Block.write':
+        form = conv = ''
     x = XDoc('lowlevel', via, xblocks, strict=True, top_comment=top, trivial=trivial,
-             sig=('lowlevel', via, nblocks, tuple(sorted(classes))[:8], bool(top), tuple(sorted(ways))[:4]),
+             sig=('lowlevel', via, nblocks, tuple(sorted(classes))[:8], bool(top), tuple(sorted(ways))[:4],
+                  form, conv, pkind if via.endswith('path') else ''),
              heading=via != 'Block.write')
-    how = float(rng.random())
+    kw_write = rng.random() < 0.3
 
-    def act():
+    def act(target=None):
         if via == 'Block.write':
-            blocks[0].write(io.StringIO())
-        else:
-            target = io.StringIO() if via.endswith('buffer') else os.path.join(tmpdir, f'd{k}.cif')
-            if isinstance(target, str) and how < 0.5:
-                target = pathlib.Path(target)
-            content = blocks[0] if nblocks == 1 and how < 0.7 else (tuple(blocks) if how < 0.85 else blocks)
-            if top:
-                cif.save_cif(target, content, comment=top)
+            t = io.StringIO() if target is None else target
+            if kw_write:
+                blocks[0].write(f=t)
             else:
-                cif.save_cif(target, content)
+                blocks[0].write(t)
+            return
+        if target is None:
+            target = io.StringIO() if via.endswith('buffer') else path_target(pkind, tmpdir, f'd{k}.cif')
+        call_save_cif(cif, conv, target, make_content(form, blocks), top)
+    return act, x
+
+
+def simple_lowlevel(cif, name, nrows, via='save_cif:buffer', form='block', nblocks=1, top='', conv='positional'):
+    """A plain document of ``nblocks`` blocks (one chunk and one loop of ``nrows`` rows each) whose
+    length is governed by ``nrows``: the building brick of the forced call sequences."""
+    blocks, xblocks = [], []
+    for j in range(nblocks):
+        nm = name if nblocks == 1 else f'{name}-{j}'
+        ids = [int(i) for i in range(nrows)]
+        env = [f'{nm} env {i}' for i in range(nrows)]
+        tof = [100.0 + 2.5 * i + j for i in range(nrows)]
+        blocks.append(cif.Block(nm, [
+            {'diffrn_source.beamline': f'beamline of {nm}', 'diffrn.ambient_temperature': sc.scalar(2.5 + j, unit='K')},
+            cif.Loop({'pd_data.point_id': sc.array(dims=['x'], values=ids, unit=None, dtype='int64'),
+                      'pd_meas.time_of_flight': sc.array(dims=['x'], values=tof, unit='us'),
+                      'diffrn.ambient_environment': sc.array(dims=['x'], values=env)})]))
+        xblocks.append(XBlock(nm, [
+            XItem('pair', ['diffrn_source.beamline'], [[('str', f'beamline of {nm}')]]),
+            XItem('pair', ['diffrn.ambient_temperature'], [[('f64', 2.5 + j)]]),
+            XItem('loop', ['pd_data.point_id', 'pd_meas.time_of_flight', 'diffrn.ambient_environment'],
+                  [[('int', i) for i in ids], [('f64', t) for t in tof], [('str', e) for e in env]])]))
+    x = XDoc('lowlevel', via, xblocks, strict=True, top_comment=top, heading=via != 'Block.write',
+             sig=('lowlevel', 'simple', via, form, conv, nblocks, 'L' if nrows > 8 else 'S'))
+
+    def act(target=None):
+        t = io.StringIO() if target is None else target
+        if via == 'Block.write':
+            blocks[0].write(t)
+        else:
+            call_save_cif(cif, conv, t, make_content(form, blocks), top)
     return act, x
 
 
@@ -1292,28 +1769,70 @@ def unit_text_is_ascii(unit):
     return unit is None or str(sc.Unit(unit)).isascii()
 
 
-def _apply_op(cif, md, b, op):
+# How the strings of the metadata objects are handed over ("style" of a program):
+#   plain     Python str
+#   variable  scalar scipp variables (the metadata models unpack them: metadata._model._unpack_variable)
+#   np.str_   numpy strings (and np.bool_ for ``corresponding``)
+#   duck      stand-ins that only have the attributes the writer reads (types.SimpleNamespace)
+META_STYLES = ('plain', 'variable', 'np.str_', 'duck')
+
+
+def _wrap(style, s, unit=None):
+    if s is None:
+        return None
+    if style == 'variable':
+        return sc.scalar(s) if unit is None else sc.scalar(s, unit=unit)
+    if style == 'np.str_':
+        return np.str_(s)
+    return s
+
+
+def _apply_op(cif, md, b, op, style=None):
     """Perform one with_* call of a program on the real builder."""
     kind = op['op']
+    style = style or {}
+    meta = op.get('meta', style.get('meta', 'plain'))
+    kwcall = op.get('kw', style.get('kw', False))
     if kind == 'authors':
-        return b.with_authors(*[
-            md.Person(name=p['name'], corresponding=p['corresponding'], role=p['role'],
-                      orcid_id=(('https://orcid.org/' if op.get('url') else '') + p['orcid'])
-                      if p['orcid'] else None, email=p['email'], address=p['address'])
-            for p in op['people']])
+        people = []
+        for p in op['people']:
+            orcid = (('https://orcid.org/' if op.get('url') else '') + p['orcid']) if p['orcid'] else None
+            if meta == 'duck':
+                people.append(types.SimpleNamespace(
+                    name=p['name'], corresponding=p['corresponding'], role=p['role'], orcid_id=orcid,
+                    email=p['email'], address=p['address']))
+                continue
+            people.append(md.Person(
+                name=_wrap(meta, p['name'], op.get('unit')),
+                corresponding=np.bool_(p['corresponding']) if meta == 'np.str_' else p['corresponding'],
+                role=_wrap(meta, p['role']), orcid_id=_wrap(meta, orcid), email=_wrap(meta, p['email']),
+                address=_wrap(meta, p['address'])))
+        return b.with_authors(*people)
     if kind == 'reducers':
-        return b.with_reducers(*op['items'])
+        items = [_wrap('np.str_' if meta == 'np.str_' else 'plain', r) for r in op['items']]
+        if op.get('splat') == 'generator':
+            return b.with_reducers(*(r for r in items))
+        return b.with_reducers(*items)
     if kind == 'beamline':
         src = None
         if op['source'] is not None:
             st = [md.SourceType.SpallationNeutronSource, md.SourceType.ReactorNeutronSource,
                   md.SourceType.SynchrotronXraySource][op['source']]
             pr = md.RadiationProbe.Xray if op['source'] == 2 else md.RadiationProbe.Neutron
-            src = md.Source(source_type=st, probe=pr)
-        bl = md.Beamline(name=op['name'], facility=op['facility'])
-        if 'comment' in op:
-            return b.with_beamline(bl, src, comment=op['comment'])
-        return b.with_beamline(bl, src)
+            if meta == 'duck':
+                src = types.SimpleNamespace(source_type=st, probe=pr, name=None)
+            else:
+                src = md.Source(source_type=st, probe=pr, name=_wrap(meta, 'the source'))
+        if meta == 'duck':
+            bl = types.SimpleNamespace(name=op['name'], facility=op['facility'])
+        else:
+            bl = md.Beamline(name=_wrap(meta, op['name']), facility=_wrap(meta, op['facility']))
+        kw = {'comment': op['comment']} if 'comment' in op else {}
+        if kwcall:
+            return b.with_beamline(beamline=bl, source=src, **kw)
+        if src is None and not kw and op.get('source_omitted'):
+            return b.with_beamline(bl)
+        return b.with_beamline(bl, src, **kw)
     if kind == 'reduced':
         dim = op['dim']
         dt = 'float32' if op['f32'] else 'float64'
@@ -1321,15 +1840,28 @@ def _apply_op(cif, md, b, op):
                          unit='us' if dim == 'tof' else 'angstrom')
         data = sc.array(dims=[dim], values=op['dx'], variances=op['dv'], unit=op['unit'], dtype=dt)
         da = sc.DataArray(data, coords={dim: coord}, name=op['dname'])
-        if 'comment' in op:
-            return b.with_reduced_powder_data(da, comment=op['comment'])
-        return b.with_reduced_powder_data(da)
+        if op.get('masked'):
+            # masks do not take values away: what was supplied is the data of every point
+            n = len(op['dx'])
+            da.masks['bad'] = sc.array(dims=[dim], values=[i % 2 == 1 for i in range(n)])
+            da.masks['all'] = sc.array(dims=[dim], values=[True] * n)
+        if op.get('bystanders'):
+            da.coords['temperature'] = sc.scalar(4.2, unit='K')
+            da.coords['run'] = sc.array(dims=[dim], values=[f'r{i}' for i in range(len(op['dx']))])
+        kw = {'comment': op['comment']} if 'comment' in op else {}
+        if kwcall:
+            return b.with_reduced_powder_data(data=da, **kw)
+        return b.with_reduced_powder_data(da, **kw)
     if kind == 'calibration':
-        cal = sc.DataArray(sc.array(dims=['cal'], values=op['cx'], variances=op['cv'], unit='us'),
-                           coords={'power': sc.array(dims=['cal'], values=op['powers'], unit=None)})
-        if 'comment' in op:
-            return b.with_powder_calibration(cal, comment=op['comment'])
-        return b.with_powder_calibration(cal)
+        cdim = op.get('cdim', 'cal')
+        cal = sc.DataArray(sc.array(dims=[cdim], values=op['cx'], variances=op['cv'], unit='us'),
+                           coords={'power': sc.array(dims=[cdim], values=op['powers'], unit=None)})
+        if op.get('masked'):
+            cal.masks['bad'] = sc.array(dims=[cdim], values=[i % 2 == 0 for i in range(len(op['cx']))])
+        kw = {'comment': op['comment']} if 'comment' in op else {}
+        if kwcall:
+            return b.with_powder_calibration(cal=cal, **kw)
+        return b.with_powder_calibration(cal, **kw)
     raise AssertionError(kind)
 
 
@@ -1422,13 +1954,21 @@ def build_program(cif, md, prog, tmpdir, k):
     if name_way == 'CIF.name=':
         b.name = name
     st = {'people': [], 'reducers': [], 'content': [], 'schemas': {'coreCIF'}, 'classes': set()}
+    style = prog.get('style', {})
     for op in prog['ops']:
         if op.get('side'):
-            _apply_op(cif, md, b, op)       # a branch that is thrown away: must not change ``b``
+            _apply_op(cif, md, b, op, style)   # a branch that is thrown away: must not change ``b``
             st['classes'].add('side:' + op['op'])
             continue
-        b = _apply_op(cif, md, b, op)
+        b = _apply_op(cif, md, b, op, style)
         _expect_op(op, st)
+        for flag in ('masked', 'bystanders', 'cdim', 'splat'):
+            if op.get(flag):
+                st['classes'].add(f'{op["op"]}:{flag}')
+    if style.get('meta', 'plain') != 'plain':
+        st['classes'].add('meta:' + style['meta'])
+    if style.get('kw'):
+        st['classes'].add('with_*(keywords)')
     if top_way == 'CIF.comment=end':
         b.comment = top
     if name_way == 'CIF.name=end':
@@ -1490,17 +2030,25 @@ def build_program(cif, md, prog, tmpdir, k):
              sig=('builder', via, tuple(sorted(classes))[:10]) + tuple(prog.get('sig', ())), trivial=False,
              builder={'contact': contact, 'regular': regular})
 
-    def act():
-        target = os.path.join(tmpdir, f'b{k}.cif') if via.endswith('path') else io.StringIO()
+    kwsave = bool(style.get('kw'))
+    pkind = prog.get('path_kind', 'str')
+
+    def act(target=None):
+        if target is None:
+            target = path_target(pkind, tmpdir, f'b{k}.cif') if via.endswith('path') else io.StringIO()
         if via == 'CIF.save:twice':
             b.save(io.StringIO())       # ids continue from the builder-wide generator
             b.save(target)
         elif via.startswith('CIF.save'):
-            b.save(target)
+            if kwsave:
+                b.save(fname=target)
+            else:
+                b.save(target)
         elif via.startswith('save_cif(cif,comment)'):
-            cif.save_cif(target, b, comment=top2)
+            call_save_cif(cif, 'keywords' if kwsave else 'positional', target, b, top2)
         else:
-            cif.save_cif(target, b)
+            call_save_cif(cif, 'keywords' if kwsave else 'positional', target, b)
+    act.builder = b
     return act, x
 
 
@@ -1582,6 +2130,16 @@ def gen_program(rng):
             op = dict(op, side=True)
         ops.append(op)
     prog['ops'] = ops
+    prog['style'] = {'meta': _pick(rng, META_STYLES) if rng.random() < 0.3 else 'plain',
+                     'kw': bool(rng.random() < 0.25)}
+    for op in ops:
+        if op['op'] in ('reduced', 'calibration') and rng.random() < 0.2:
+            op['masked'] = True
+        if op['op'] == 'reduced' and rng.random() < 0.2:
+            op['bystanders'] = True
+        if op['op'] == 'calibration' and rng.random() < 0.4:
+            op['cdim'] = _pick(rng, LOOP_DIMS)
+    prog['path_kind'] = _pick(rng, PATH_KINDS)
     prog['via'] = BUILDER_VIAS[int(rng.choice(5, p=[0.4, 0.2, 0.15, 0.15, 0.1]))]
     if prog['via'].startswith('save_cif(cif,comment)'):
         prog['top2'] = hostile_comment(rng) or 'second comment'
@@ -1658,6 +2216,56 @@ def forced_programs():
     for via in BUILDER_VIAS:
         out.append((f'save_way:{via}', {'name': 'forced', 'via': via, 'top': 'top', 'ops': [
             {'op': 'authors', 'people': [p1, p2]}, {'op': 'reducers', 'items': [a, a]}]}))
+    # metadata handed over as scalar scipp variables / numpy strings / duck-typed stand-ins
+    full1 = person('Jane Doe', True, 'principal investigator', '0000-0002-1825-0097', "o'jane@ess.eu",
+                   'Partikelgatan 2, 224 84 Lund')
+    full2 = person("Max O'Mustermann", False, 'data curation', None, None, 'K\xf8benhavn \xd8')
+    everything = [{'op': 'authors', 'people': [full1, full2], 'url': True},
+                  {'op': 'reducers', 'items': [a, 'data_reduction v2']},
+                  {'op': 'beamline', 'facility': 'ESS', 'name': 'DREAM', 'source': 0, 'comment': 'the beamline'},
+                  _reduced_op('counts', comment='reduced'),
+                  {'op': 'calibration', 'powers': [0, 1, 2], 'cx': [3.4, 0.2, -0.01], 'cv': [0.01, 0.02, 0.0],
+                   'comment': 'calibration'}]
+    for meta in META_STYLES[1:]:
+        out.append((f'meta:{meta}:everything', {'name': 'forced', 'style': {'meta': meta}, 'ops': everything}))
+        out.append((f'meta:{meta}:one_author_no_source',
+                    {'name': 'forced', 'style': {'meta': meta},
+                     'ops': [{'op': 'authors', 'people': [full2]},
+                             {'op': 'beamline', 'facility': None, 'name': '_POWGEN #1', 'source': None}]}))
+    out.append(('meta:variable:dimensionless_unit',
+                {'name': 'forced', 'style': {'meta': 'variable'},
+                 'ops': [{'op': 'authors', 'people': [p1, p2], 'unit': 'one'}]}))
+    out.append(('call:with_*(keywords)', {'name': 'forced', 'style': {'kw': True}, 'via': 'CIF.save:buffer',
+                                          'ops': everything}))
+    out.append(('call:save_cif(fname=,content=CIF,comment=)',
+                {'name': 'forced', 'style': {'kw': True}, 'via': 'save_cif(cif,comment):buffer', 'top2': 'kw',
+                 'ops': everything[:2]}))
+    out.append(('call:with_beamline(source omitted)',
+                {'name': 'forced', 'ops': [{'op': 'beamline', 'facility': 'isis', 'name': 'POLARIS', 'source': None,
+                                            'source_omitted': True}]}))
+    out.append(('oneshot:with_reducers(*generator)',
+                {'name': 'forced', 'ops': [{'op': 'reducers', 'items': [a, b_, a], 'splat': 'generator'}]}))
+    # masks and bystander coordinates do not take supplied values away
+    out.append(('masks:reduced', {'name': 'forced', 'ops': [_reduced_op('counts', masked=True)]}))
+    out.append(('masks:reduced:tof_with_coord_su',
+                {'name': 'forced', 'ops': [_reduced_op('counts', 'tof', masked=True, cv=[0.01, 0.04, 0.09])]}))
+    out.append(('masks:calibration', {'name': 'forced', 'ops': [
+        {'op': 'calibration', 'powers': [0, 1, 2], 'cx': [3.4, 0.2, -0.01], 'cv': [0.01, 0.02, 0.0],
+         'masked': True}]}))
+    out.append(('coords:bystanders', {'name': 'forced', 'ops': [_reduced_op('counts', bystanders=True)]}))
+    # caller dims named like the dims the writer uses for its own loops
+    for d in LOOP_DIMS:
+        out.append((f'dims:calibration:{d}', {'name': 'forced', 'ops': [
+            {'op': 'reducers', 'items': [a, b_]}, {'op': 'authors', 'people': [p1, p2, dict(p2, name='Third')]},
+            {'op': 'calibration', 'powers': [1, 0], 'cx': [0.2, 3.4], 'cv': None, 'cdim': d}]}))
+    # beyond the sizes of the random documents
+    n = 600
+    out.append(('size:reduced_600_points', {'name': 'forced', 'ops': [dict(
+        _reduced_op('counts', 'tof'), cx=[100.0 + 0.25 * i for i in range(n)], cv=None,
+        dx=[float((i * 37) % 101) + 0.5 for i in range(n)], dv=[1.0 + (i % 7) for i in range(n)])]}))
+    for pk in PATH_KINDS:
+        out.append((f'target:CIF.save:{pk}', {'name': 'forced', 'via': 'CIF.save:path', 'path_kind': pk,
+                                              'ops': [{'op': 'reducers', 'items': [a]}]}))
     return out
 
 
@@ -1705,6 +2313,710 @@ def gen_forced_lowlevel(cif, spec):
 
 
 # ======================================================================
+# call sequences into one open handle
+# ======================================================================
+# A handle belongs to the caller: a call writes its document at the position the handle stands at
+# and touches nothing else.  Three families of handles:
+#   * any call, the handle only ever grows: the whole text is judged as well (all blocks, in order)
+#   * any call, the handle stands in front of older text: the call overwrites part of it, only the
+#     fragment between the positions before and after the call is the document
+#   * handles that only Block.write takes on the unchanged tree (save_cif / CIF.save refuse real
+#     file objects with TypeError: recorded in DESIGN.md as outside the listed properties)
+HANDLES_GROWING = ('StringIO', 'TeeStringIO', 'StringIO(initial)@end', 'StringIO:written_by_caller')
+HANDLES_OVERWRITING = ('StringIO(initial)@0', 'StringIO@middle', 'StringIO@0_after_write')
+HANDLES_WRITE_ONLY = ('file:w', 'file:a', 'file:r+@end', 'file:w+', 'WriteOnly')
+CALLER_PREFACE = "# notes of the caller\ndata_caller_block\n_caller.note 'written by hand'\n_caller.n 3\n"
+OLD_TEXT = MAGIC + 'data_old_document\n\n' + ''.join(f'_old.tag{i} old_value_{i}\n' for i in range(120))
+
+
+def _caller_blocks(name='caller_block'):
+    return [XBlock(name, [XItem('pair', ['caller.note'], [[('str', 'written by hand')]]),
+                          XItem('pair', ['caller.n'], [[('int', 3)]])], strict=True)]
+
+
+def open_handle(kind, tmpdir, key):
+    """-> (handle, blocks the caller wrote himself, judge the whole text?, close)"""
+    path = os.path.join(tmpdir, f'h{key}.cif')
+    if kind == 'StringIO':
+        return io.StringIO(), [], True, lambda: None
+    if kind == 'TeeStringIO':
+        return TeeStringIO(), [], True, lambda: None
+    if kind == 'StringIO(initial)@end':
+        h = io.StringIO(CALLER_PREFACE)
+        h.seek(0, 2)
+        return h, _caller_blocks(), True, lambda: None
+    if kind == 'StringIO:written_by_caller':
+        h = io.StringIO()
+        h.write(CALLER_PREFACE)
+        return h, _caller_blocks(), True, lambda: None
+    if kind == 'StringIO(initial)@0':
+        return io.StringIO(OLD_TEXT), [], False, lambda: None
+    if kind == 'StringIO@middle':
+        h = io.StringIO()
+        h.write(OLD_TEXT)
+        h.seek(len(OLD_TEXT) // 3)
+        return h, [], False, lambda: None
+    if kind == 'StringIO@0_after_write':
+        h = io.StringIO()
+        h.write(OLD_TEXT)
+        h.seek(0)
+        return h, [], False, lambda: None
+    if kind == 'WriteOnly':
+        return WriteOnly(), [], True, lambda: None
+    if kind == 'file:w':
+        h = open(path, 'w')  # noqa: SIM115
+        return h, [], True, h.close
+    if kind == 'file:w+':
+        h = open(path, 'w+')  # noqa: SIM115
+        h.write(CALLER_PREFACE)
+        return h, _caller_blocks(), True, h.close
+    with open(path, 'w') as f:
+        f.write(CALLER_PREFACE)
+    if kind == 'file:a':
+        h = open(path, 'a')  # noqa: SIM115
+        return h, _caller_blocks(), True, h.close
+    if kind == 'file:r+@end':
+        h = open(path, 'r+')  # noqa: SIM115
+        h.seek(0, 2)
+        return h, _caller_blocks(), True, h.close
+    raise AssertionError(kind)
+
+
+def _session_program(letter, j):
+    p1 = person('Jane Doe', True, 'measurement', '0000-0002-1825-0097')
+    p2 = person('Max Mustermann', False, 'analysis')
+    n = 12
+    reduced = dict(_reduced_op('counts', 'tof'), cx=[100.0 + 2.5 * i for i in range(n)],
+                   dx=[10.0 + i for i in range(n)], dv=[0.25 * (i + 1) for i in range(n)])
+    ops = {
+        'B': [{'op': 'authors', 'people': [p1, p2]}, {'op': 'reducers', 'items': ['some package 1.0', 'other 2.0']},
+              {'op': 'beamline', 'facility': 'ESS', 'name': 'DREAM', 'source': None}, reduced],
+        'R': [{'op': 'authors', 'people': [p1, p2]}, reduced],
+        'C': [{'op': 'calibration', 'powers': [0, 1], 'cx': [3.5, 0.25], 'cv': None}],
+        'S': [{'op': 'reducers', 'items': ['tiny 0.1']}],
+        'K': [{'op': 'authors', 'people': [p2]}, {'op': 'reducers', 'items': ['tiny 0.1']}],
+    }[letter]
+    via = {'S': 'save_cif(cif):buffer', 'K': 'save_cif(cif,comment):buffer'}.get(letter, 'CIF.save:buffer')
+    return {'name': f'call{j}_{letter}', 'via': via, 'top': 'comment of the builder' if letter in 'BK' else '',
+            'top2': 'comment given to save_cif', 'ops': ops, 'sig': ('session', letter)}
+
+
+def session_steps(cif, md, pattern, tmpdir, key):
+    """Steps of a forced call sequence.  Letters: L / l save_cif(Block) with a long / short loop,
+    M save_cif(generator of two blocks), W / w Block.write short / long, B R C builder documents saved
+    with CIF.save, S save_cif(CIF), K save_cif(CIF, comment=), T / D text the caller writes himself
+    (a comment / a data block), = the previous call once more with the same objects."""
+    steps = []
+    for j, c in enumerate(pattern):
+        nm = f'call{j}_{c}'
+        if c == 'T':
+            steps.append(('caller', f'# the caller writes between the calls ({j})\n', []))
+        elif c == 'D':
+            steps.append(('caller', CALLER_PREFACE.replace('caller_block', nm), _caller_blocks(nm)))
+        elif c == '=':
+            _, act, x = steps[-1]
+            x2 = _copy.copy(x)
+            x2.env = {}
+            x2.sig = x.sig + ('again',)
+            steps.append(('call', act, x2))
+        elif c in 'LlMWw':
+            act, x = simple_lowlevel(cif, nm, {'L': 20, 'l': 2, 'M': 3, 'W': 3, 'w': 15}[c],
+                                     via='Block.write' if c in 'Ww' else 'save_cif:buffer',
+                                     form='generator_expression' if c == 'M' else 'block',
+                                     nblocks=2 if c == 'M' else 1,
+                                     top='file comment' if c == 'L' else '')
+            steps.append(('call', act, x))
+        else:
+            act, x = build_program(cif, md, _session_program(c, j), tmpdir, f'{key}_{j}')
+            steps.append(('call', act, x))
+    return steps
+
+
+FORCED_SESSIONS = (
+    [('StringIO', p) for p in ('Ll', 'lL', 'BMW', 'TlDS', 'RC', 'B=', 'l=', 'KwK')]
+    + [('TeeStringIO', 'lL'), ('TeeStringIO', 'BW'), ('StringIO(initial)@end', 'lB'),
+       ('StringIO:written_by_caller', 'Ml')]
+    + [(k, p) for k in HANDLES_OVERWRITING for p in ('l', 'B', 'L')]
+    + [('file:w', 'Ww'), ('file:w', 'wTW'), ('file:w', 'W='), ('file:a', 'Ww'), ('file:r+@end', 'wW'),
+       ('file:w+', 'WDw'), ('WriteOnly', 'wTW')]
+)
+
+
+def forced_session_classes():
+    return [f'handle:{k}:{p}' for k, p in FORCED_SESSIONS]
+
+
+def run_session(env, kind, steps, key, sig):
+    """Perform the steps on one handle of the given kind; every call is judged on the fragment it
+    wrote, and the whole text of a growing handle against all blocks in the order of the calls."""
+    ctx, mon = env.ctx, env.mon
+    h, pre_blocks, whole, close = open_handle(kind, env.tmpdir, key)
+    t0 = _dt.datetime.now(_dt.timezone.utc).replace(microsecond=0)
+    all_blocks = list(pre_blocks)
+    clean, n_calls = True, 0
+    try:
+        for st in steps:
+            if st[0] == 'caller':
+                h.write(st[1])
+                all_blocks += st[2]
+                continue
+            _, act, x = st
+            x.sig = tuple(x.sig) + ('handle', kind, min(n_calls, 3))
+            before = ctx.n_violations
+            env.execute(lambda act=act: act(h), x)
+            n_calls += 1
+            if mon.refusal is not None or ctx.n_violations != before:
+                clean = False
+            all_blocks += [XBlock(b.name, b.items, b.comment, strict=x.strict,
+                                  builder=x.builder if x.builder is not None else {'contact': [], 'regular': []},
+                                  env=x.env) for b in x.blocks]
+        ctx.event('handle.calls', n_calls)
+        if n_calls > 1:
+            ctx.event('handle.reused')
+        if whole and clean:
+            xs = XDoc('handle', kind, all_blocks, strict=True, heading=False, sig=('handle', kind) + tuple(sig))
+            xs.env['t0'] = t0
+            mon.judge_handle(xs, h, f'{n_calls} calls into one handle ({kind})')
+            ctx.case(xs.sig)
+        elif whole:
+            ctx.count('handle.whole_text_not_judged_after_refusal_or_violation')
+    finally:
+        close()
+
+
+def gen_session(rng, env, k):
+    """A random call sequence: 2..4 documents into one handle, the caller's own text between them."""
+    cif, md = env.cif, env.md
+    kind = _pick(rng, HANDLES_GROWING + HANDLES_GROWING + HANDLES_OVERWRITING + HANDLES_WRITE_ONLY)
+    n = 1 if kind in HANDLES_OVERWRITING and rng.random() < 0.5 else int(rng.integers(2, 5))
+    steps, kinds = [], []
+    for j in range(n):
+        if rng.random() < 0.2:
+            steps.append(('caller', f'# the caller writes between the calls ({j})\n', []))
+        big = bool(rng.random() < 0.3)
+        if kind in HANDLES_WRITE_ONLY or rng.random() < 0.15:
+            act, x = gen_lowlevel(rng, cif, env.tmpdir, f's{k}_{j}', force_via='Block.write', big=big,
+                                  name_prefix=f'c{j}_')
+            kinds.append('W')
+        elif rng.random() < 0.55:
+            act, x = gen_lowlevel(rng, cif, env.tmpdir, f's{k}_{j}', force_via='save_cif:buffer', big=big,
+                                  name_prefix=f'c{j}_')
+            kinds.append('L')
+        else:
+            prog = gen_program(rng)
+            prog['name'] = f'c{j}_' + prog['name']
+            prog['via'] = _pick(rng, ('CIF.save:buffer', 'save_cif(cif):buffer', 'save_cif(cif,comment):buffer'))
+            if prog['via'].startswith('save_cif(cif,comment)'):
+                prog['top2'] = hostile_comment(rng) or 'second comment'
+            act, x = build_program(cif, md, prog, env.tmpdir, f's{k}_{j}')
+            kinds.append('B')
+        steps.append(('call', act, x))
+    return kind, steps, ('random', ''.join(kinds))
+
+
+# ======================================================================
+# forced scenarios that are more than one document
+# ======================================================================
+def _sp_content_form(form, target_kind):
+    def fn(env):
+        nblocks = 1 if form in SINGLE_BLOCK_FORMS else 3
+        for conv, tk in (('positional', target_kind), ('keywords', 'path' if target_kind == 'buffer' else 'buffer')):
+            act, x = simple_lowlevel(env.cif, 'run', 3, form=form, nblocks=nblocks, conv=conv,
+                                     top='written from ' + form, via='save_cif:' + tk)
+            if tk == 'path':
+                env.execute(lambda act=act: act(os.path.join(env.tmpdir, 'content_form.cif')), x)
+            else:
+                env.execute(act, x)
+    return fn
+
+
+def _open_file_refusal(exc):
+    # io/_files.open_or_pass does not recognise real file objects and hands them to open():
+    # known behaviour of the unchanged tree, outside the listed properties (DESIGN.md)
+    return isinstance(exc, TypeError) and 'PathLike' in str(exc)
+
+
+def _sp_open_text_file(env):
+    for how in ('save_cif', 'CIF.save'):
+        path = os.path.join(env.tmpdir, f'open_{how}.cif')
+        with open(path, 'w') as h:
+            h.write('# opened by the caller\n')
+            if how == 'save_cif':
+                act, x = simple_lowlevel(env.cif, 'into_open_file', 3)
+            else:
+                act, x = build_program(env.cif, env.md, _session_program('S', 0), env.tmpdir, 'openfile')
+            x.sig = tuple(x.sig) + ('open text file',)
+            env.execute(lambda act=act, h=h: act(h), x, allow=_open_file_refusal)
+            env.ctx.count(('refused' if env.mon.refusal is not None else 'accepted') + f':{how}_into_open_text_file')
+
+
+def _sp_metadata_values(env):
+    """Strings that went through the metadata models as scalar variables, written as chunk values."""
+    md, cif = env.md, env.cif
+    title, run, site = 'Si powder; 300 K', '_run #12', "l'\xeele"
+    m = md.Measurement(title=sc.scalar(title), run_number=sc.scalar(run), experiment_id=sc.scalar('p 1'),
+                       experiment_doi=sc.scalar('10.1000/182'))
+    bl = md.Beamline(name=sc.scalar('DREAM'), facility=sc.scalar('ESS'), site=sc.scalar(site),
+                     revision=sc.scalar('2025-1'))
+    src = md.Source(name=sc.scalar('ESS Butterfly'), source_type=md.SourceType.SpallationNeutronSource,
+                    probe=md.RadiationProbe.Neutron)
+    pairs = {'m.title': (m.title, title), 'm.run': (m.run_number, run), 'm.id': (m.experiment_id, 'p 1'),
+             'm.doi': (m.experiment_doi, '10.1000/182'), 'b.name': (bl.name, 'DREAM'),
+             'b.facility': (bl.facility, 'ESS'), 'b.site': (bl.site, site), 'b.revision': (bl.revision, '2025-1'),
+             's.name': (src.name, 'ESS Butterfly')}
+    blk = cif.Block('metadata', [{k: v[0] for k, v in pairs.items()}])
+    x = XDoc('lowlevel', 'save_cif:buffer', [XBlock('metadata', [
+        XItem('pair', [k], [[('str', v[1])]]) for k, v in pairs.items()])], strict=True,
+        sig=('lowlevel', 'forced', 'metadata values from scalar variables'))
+    env.execute(lambda: cif.save_cif(io.StringIO(), blk), x)
+    # what the models refuse stays refused, and the next use is not affected
+    for label, make in (('unit', lambda: md.Person(name=sc.scalar('Jane', unit='m'))),
+                        ('not_scalar', lambda: md.Person(name=sc.array(dims=['x'], values=['Jane']))),
+                        ('not_a_string', lambda: md.Beamline(name=sc.scalar(3)))):
+        try:
+            make()
+            env.ctx.count('accepted:metadata_variable:' + label)
+        except ValueError:
+            env.ctx.count('refused:metadata_variable:' + label)
+    act, x = build_program(cif, md, {'name': 'after_refusals', 'style': {'meta': 'variable'}, 'ops': [
+        {'op': 'authors', 'people': [person('Jane Doe', True, 'software')]}], 'sig': ('after model refusals',)},
+        env.tmpdir, 'metaref')
+    env.execute(act, x)
+
+
+def _sp_numpy_types(env):
+    """numpy strings / integers, StrEnum / IntEnum members wherever str / int are documented."""
+    cif = env.cif
+    vals = {
+        'v.npstr': (np.str_("it's"), ('str', "it's")), 'v.npstr_multi': (np.str_('a\nb'), ('str', 'a\nb')),
+        'v.npstr_lead': (np.str_('_tag'), ('str', '_tag')), 'v.npstr_empty': (np.str_(''), ('str', '')),
+        'v.strenum': (str_enum_member('alpha beta'), ('str', 'alpha beta')),
+        'v.strenum_reserved': (str_enum_member('loop_'), ('str', 'loop_')),
+        'v.intenum': (int_enum_member(7), ('int', 7)), 'v.int8': (np.int8(-7), ('int', -7)),
+        'v.int16': (np.int16(-300), ('int', -300)), 'v.int32': (np.int32(70000), ('int', 70000)),
+        'v.uint8': (np.uint8(200), ('int', 200)), 'v.uint64': (np.uint64(2**63 + 5), ('int', 2**63 + 5)),
+        'v.f64': (np.float64(1.5e-7), ('f64', 1.5e-7)), 'v.f32': (np.float32(0.1), ('f32', float(np.float32(0.1)))),
+    }
+    name, tagged, comment = np.str_('numpy_named'), np.str_('v.np_tag'), np.str_('comment given as numpy string')
+    pairs = {k: v[0] for k, v in vals.items()}
+    pairs[tagged] = np.str_('x')
+    blk = cif.Block(name, [cif.Chunk(pairs, comment=comment)], comment=comment)
+    blk.add(cif.Loop({np.str_('l.a'): sc.array(dims=[np.str_('r')], values=[np.str_('p q'), np.str_('#r')])},
+                     comment=comment))
+    x = XDoc('lowlevel', 'save_cif:buffer', [XBlock('numpy_named', [
+        XItem('pair', [k], [[v[1]]]) for k, v in vals.items()] + [
+        XItem('pair', ['v.np_tag'], [[('str', 'x')]]),
+        XItem('loop', ['l.a'], [[('str', 'p q'), ('str', '#r')]])], str(comment))], strict=True,
+        top_comment=str(comment), sig=('lowlevel', 'forced', 'numpy scalar types'))
+    env.execute(lambda: cif.save_cif(io.StringIO(), blk, comment=comment), x)
+
+
+def _sp_block_names(env):
+    cif, ctx = env.cif, env.ctx
+    # a block code cannot hold blanks or line ends: either the name is refused (ValueError), or the
+    # document that is written has to parse to the name that was supplied
+    for ws, label in ((' ', 'blank'), ('\t', 'tab'), ('\n', 'newline')):
+        bad = f'two{ws}words'
+        for how in ('Block(name)', 'Block.name=', 'CIF(name)', 'CIF.name=', 'np.str_'):
+            try:
+                if how == 'Block(name)':
+                    obj = cif.Block(bad, [{'k.v': 'x'}])
+                elif how == 'np.str_':
+                    obj = cif.Block(np.str_(bad), [{'k.v': 'x'}])
+                elif how == 'Block.name=':
+                    obj = cif.Block('fine', [{'k.v': 'x'}])
+                    obj.name = bad
+                elif how == 'CIF(name)':
+                    obj = cif.CIF(bad)
+                else:
+                    obj = cif.CIF('fine')
+                    obj.name = bad
+            except ValueError:
+                ctx.count(f'refused:block_name_with_{label}')
+                continue
+            ctx.count(f'accepted:block_name_with_{label}')
+            if how.startswith('CIF'):
+                x = XDoc('builder', 'CIF.save:buffer', [XBlock(bad, _audit_items())], strict=False,
+                         sig=('builder', 'forced', 'name with ' + label), builder={'contact': [], 'regular': []})
+                env.execute(lambda obj=obj: obj.save(io.StringIO()), x)
+            else:
+                x = XDoc('lowlevel', 'save_cif:buffer', [XBlock(bad, [XItem('pair', ['k.v'], [[('str', 'x')]])])],
+                         strict=True, sig=('lowlevel', 'forced', 'name with ' + label))
+                env.execute(lambda obj=obj: cif.save_cif(io.StringIO(), obj), x)
+    # names at and beyond the 75 characters CIF 1.1 allows for a block code: a warning, the name is written
+    for n in (75, 76, 120):
+        nm = ('n%d_' % n + 'abcdefghij' * 12)[:n]
+        with warnings.catch_warnings(record=True) as caught:
+            warnings.simplefilter('always')
+            blk = cif.Block(nm, [{'k.v': 'x'}])
+            b2 = cif.Block('short', [{'k.v': 'x'}])
+            b2.name = nm
+        ctx.count(f'block_name_{n}_chars.warnings', len(caught))
+        for obj in (blk, b2):
+            x = XDoc('lowlevel', 'save_cif:buffer', [XBlock(nm, [XItem('pair', ['k.v'], [[('str', 'x')]])])],
+                     strict=True, sig=('lowlevel', 'forced', 'name length', n))
+            env.execute(lambda obj=obj: cif.save_cif(io.StringIO(), obj), x)
+
+
+def _sp_after_refused_name(env):
+    """A refused call leaves the document unchanged: after an assignment to ``Block.name`` /
+    ``CIF.name`` that was refused with ValueError, every later save of the object - and of copies
+    made afterwards - is valid CIF 1.1 and parses to the supplied content under the block code
+    the object had before the assignment."""
+    cif, ctx = env.cif, env.ctx
+    pair = [XItem('pair', ['k.v'], [[('str', 'x y')]]), XItem('loop', ['l.a'], [[('str', 'p'), ('str', '#q')]])]
+    for ws, label in ((' ', 'blank'), ('\t', 'tab'), ('\n', 'newline')):
+        bad = f'two{ws}words'
+        # ---- a block
+        blk = cif.Block('fine', [{'k.v': 'x y'}, cif.Loop({'l.a': sc.array(dims=['r'], values=['p', '#q'])})])
+        try:
+            blk.name = bad
+            ctx.count('accepted:block_name_assignment_with_' + label)   # judged by block_name:whitespace_and_length
+        except ValueError:
+            ctx.count('refused:block_name_assignment_with_' + label)
+            for saved_by, act, heading in (
+                    ('save_cif', lambda blk=blk: cif.save_cif(io.StringIO(), blk), True),
+                    ('save_cif(iterable)', lambda blk=blk: cif.save_cif(io.StringIO(), iter([blk])), True),
+                    ('Block.write', lambda blk=blk: blk.write(io.StringIO()), False),
+                    ('copy', lambda blk=blk: cif.save_cif(io.StringIO(), _copy.copy(blk)), True)):
+                x = XDoc('lowlevel', 'save_cif:buffer' if heading else 'Block.write', [XBlock('fine', pair)],
+                         strict=True, heading=heading, sig=('lowlevel', 'forced', 'after refused name', label, saved_by))
+                x.report_as = ('doc_after_refused_name',
+                               {'mechanism': 'after_refused_name', 'object': 'block', 'way': 'Block.name=',
+                                'saved_by': saved_by})
+                env.execute(act, x)
+                ctx.event('after_refused_name')
+        # ---- a builder
+        b = cif.CIF('fine').with_reducers('prog 1')
+        try:
+            b.name = bad
+            ctx.count('accepted:builder_name_assignment_with_' + label)
+        except ValueError:
+            ctx.count('refused:builder_name_assignment_with_' + label)
+            items = [*_audit_items(), XItem('pair', ['computing.diffrn_reduction'], [[('str', 'prog 1')]],
+                                            group='auto')]
+            for saved_by, act in (
+                    ('CIF.save', lambda b=b: b.save(io.StringIO())),
+                    ('save_cif(CIF)', lambda b=b: cif.save_cif(io.StringIO(), b)),
+                    ('copy', lambda b=b: b.copy().save(io.StringIO())),
+                    ('with_*', lambda b=b: b.with_authors().save(io.StringIO()))):
+                x = XDoc('builder', 'CIF.save:buffer', [XBlock('fine', items)], strict=False,
+                         sig=('builder', 'forced', 'after refused name', label, saved_by),
+                         builder={'contact': [], 'regular': []})
+                x.report_as = ('doc_after_refused_name',
+                               {'mechanism': 'after_refused_name', 'object': 'builder', 'way': 'CIF.name=',
+                                'saved_by': saved_by})
+                env.execute(act, x)
+                ctx.event('after_refused_name')
+
+
+def _audit_items(reducers=()):
+    items = [XItem('loop', ['audit_conform.dict_name', 'audit_conform.dict_version', 'audit_conform.dict_location'],
+                   [[('str', 'coreCIF')], [], []], group='auto', special='schema'),
+             XItem('pair', ['audit.creation_date'], [[('now',)]], group='auto'),
+             XItem('pair', ['audit.creation_method'], [[('nonblank',)]], group='auto')]
+    return items
+
+
+def _sp_loop_refusals(env):
+    """What a loop cannot hold (columns that are not 1-d, columns of another length or dim) is refused
+    when it is supplied, and the refused call leaves the loop as it was: the next save writes the
+    columns that were accepted."""
+    cif, ctx = env.cif, env.ctx
+    good = sc.array(dims=['x'], values=[1.5, 2.5])
+    bad = {'2d': sc.zeros(dims=['x', 'y'], shape=[2, 3]), '2d_outer_matches': sc.zeros(dims=['x', 'y'], shape=[2, 1]),
+           '0d': sc.scalar(1.0), 'longer': sc.array(dims=['x'], values=[1.0, 2.0, 3.0]),
+           'other_dim': sc.array(dims=['y'], values=[1.0, 2.0]), 'empty': sc.array(dims=['x'], values=[])}
+    for label, var in bad.items():
+        loop = cif.Loop({'l.good': good}, comment='kept')
+        tags, cols = ['l.good'], [[('f64', 1.5), ('f64', 2.5)]]
+        try:
+            loop['l.bad'] = var
+            ctx.count('accepted:loop_column_' + label)
+            tags.append('l.bad')
+            cols.append([('any',), ('any',)])
+        except sc.DimensionError:
+            ctx.count('refused:loop_column_' + label)
+        x = XDoc('lowlevel', 'save_cif:buffer', [XBlock('after', [XItem('loop', tags, cols)])], strict=True,
+                 sig=('lowlevel', 'forced', 'loop after refused column', label))
+        env.execute(lambda loop=loop: cif.save_cif(io.StringIO(), cif.Block('after', [loop])), x)
+        try:
+            cif.Loop({'l.bad': var, 'l.good': good} if label not in ('longer', 'other_dim', 'empty')
+                     else {'l.good': good, 'l.bad': var})
+            ctx.count('accepted:Loop(' + label + ')')
+        except sc.DimensionError:
+            ctx.count('refused:Loop(' + label + ')')
+
+
+def _sp_second_use(env):
+    cif, md, ctx = env.cif, env.md, env.ctx
+    # the same block saved again: into another buffer, to a path, through Block.write
+    act, x = simple_lowlevel(cif, 'again', 4)
+    for n in range(3):
+        x2 = _copy.copy(x)
+        x2.env, x2.sig = {}, tuple(x.sig) + ('use', n)
+        env.execute(act, x2)
+    # a document that is refused (a line of a text field may not start with ';'), then the same
+    # objects again after the caller replaced the value: the refusal left nothing behind
+    chunk = cif.Chunk({'t.ok': 'fine', 't.bad': 'l1\n;l2', 't.late': 'never reached'})
+    blk = cif.Block('retry', [chunk, cif.Loop({'l.a': sc.array(dims=['r'], values=['p', 'q'])})])
+
+    def xdoc(bad, n):
+        return XDoc('lowlevel', 'save_cif:buffer', [XBlock('retry', [
+            XItem('pair', ['t.ok'], [[('str', 'fine')]]), XItem('pair', ['t.bad'], [[('str', bad)]]),
+            XItem('pair', ['t.late'], [[('str', 'never reached')]]),
+            XItem('loop', ['l.a'], [[('str', 'p'), ('str', 'q')]])])], strict=True,
+            sig=('lowlevel', 'forced', 'after a refusal', n))
+    buf = io.StringIO()
+    env.execute(lambda: cif.save_cif(buf, blk), xdoc('l1\n;l2', 0))
+    refused = env.mon.refusal is not None
+    ctx.count('second_use.first_call_' + ('refused' if refused else 'written'))
+    chunk['t.bad'] = 'l1\n l2'
+    env.execute(lambda: cif.save_cif(io.StringIO(), blk), xdoc('l1\n l2', 1))
+    # ... and into the handle the refused call left half written: the new document starts where the
+    # handle stands
+    env.execute(lambda: cif.save_cif(buf, blk), xdoc('l1\n l2', 2))
+    # a builder whose save is refused, saved again; then builders without the offending item
+    p = person('Jane Doe', True, 'software')
+    base = {'name': 'builder_retry', 'ops': [{'op': 'authors', 'people': [p]},
+                                             {'op': 'reducers', 'items': ['ok 1.0', 'l1\n;l2']}]}
+    act, x = build_program(cif, md, dict(base, sig=('after a refusal', 0)), env.tmpdir, 'retry0')
+    env.execute(act, x)
+    x2 = _copy.copy(x)
+    x2.env = {}
+    env.execute(act, x2)                # the same builder again: the same answer
+    good = {'name': 'builder_retry', 'ops': [{'op': 'authors', 'people': [p]},
+                                             {'op': 'reducers', 'items': ['ok 1.0']},
+                                             {'op': 'authors', 'people': [person('Max Mustermann', False, 'analysis')]}]}
+    act, x = build_program(cif, md, dict(good, sig=('after a refusal', 1)), env.tmpdir, 'retry1')
+    env.execute(act, x)
+    env.execute(act, _copy.copy(x))     # and once more: ids go on, the document is complete
+
+
+def _sp_interleave(env):
+    """repr / str / == / copy / deepcopy / pickle of the objects between building and saving and
+    between two saves change nothing; a copy that could be made is written like the original."""
+    cif, md, ctx = env.cif, env.md, env.ctx
+
+    def poke(obj, label):
+        out = {}
+        for name, f in (('repr', repr), ('str', str), ('eq', lambda o: (o == o, o != o, o == 1)),
+                        ('copy', _copy.copy), ('deepcopy', _copy.deepcopy),
+                        ('pickle', lambda o: pickle.loads(pickle.dumps(o)))):
+            try:
+                out[name] = f(obj)
+                ctx.count(f'interleave.{label}.{name}.ok')
+            except Exception as e:  # noqa: BLE001  whether the objects support it is not C14's business
+                ctx.count(f'interleave.{label}.{name}.{type(e).__name__}')
+        return out
+
+    chunk = cif.Chunk({'t.a': "it's", 't.b': sc.scalar(1.5, variance=0.04, unit='angstrom')}, comment='chunk')
+    loop = cif.Loop({'l.s': sc.array(dims=['r'], values=['p q', '_r']),
+                     'l.x': sc.array(dims=['r'], values=[1.0, 2.5], variances=[0.01, 0.04])}, comment='loop')
+    blk = cif.Block('poked', [chunk, loop], comment='block')
+
+    def xdoc(n, strict=True):
+        items = [
+            XItem('pair', ['t.a'], [[('str', "it's")]]), XItem('pair', ['t.b'], [[('fvar', 1.5, 0.04, False)]]),
+            XItem('loop', ['l.s', 'l.x'], [[('str', 'p q'), ('str', '_r')],
+                                           [('fvar', 1.0, 0.01, False), ('fvar', 2.5, 0.04, False)]])]
+        if not strict:
+            # Block.copy() of a block without schema lists coreCIF (observed on the unchanged tree;
+            # generated content like the audit section of the builder, not judged as a difference)
+            tags = ['audit_conform.dict_name', 'audit_conform.dict_version', 'audit_conform.dict_location']
+            items.insert(0, XItem('loop', tags, [[('str', 'coreCIF')], [], []], group='auto', optional=tags,
+                                  special='schema'))
+        return XDoc('lowlevel', 'save_cif:buffer', [XBlock('poked', items, 'block')],
+                    strict=strict, sig=('lowlevel', 'forced', 'interleaved', n))
+    poke(chunk, 'Chunk')
+    poke(loop, 'Loop')
+    copies = poke(blk, 'Block')
+    env.execute(lambda: cif.save_cif(io.StringIO(), blk), xdoc(0))
+    poke(blk, 'Block')
+    env.execute(lambda: cif.save_cif(io.StringIO(), blk), xdoc(1))
+    for name in ('copy', 'deepcopy', 'pickle'):
+        if isinstance(copies.get(name), cif.Block):
+            env.execute(lambda c=copies[name]: cif.save_cif(io.StringIO(), c), xdoc(name))
+    env.execute(lambda: cif.save_cif(io.StringIO(), blk.copy()), xdoc('Block.copy()', strict=False))
+    prog = {'name': 'poked_builder', 'top': 'top', 'ops': [
+        {'op': 'authors', 'people': [person('Jane Doe', True, 'software'), person('Max Mustermann', False, 'analysis')]},
+        {'op': 'reducers', 'items': ['a 1', 'b 2']}, _reduced_op('counts')]}
+    act, x = build_program(cif, md, dict(prog, sig=('interleaved', 0)), env.tmpdir, 'poke0')
+    copies = poke(act.builder, 'CIF')
+    env.execute(act, x)
+    poke(act.builder, 'CIF')
+    x2 = _copy.copy(x)
+    x2.env = {}
+    env.execute(act, x2)
+    for name in ('copy', 'deepcopy', 'pickle'):
+        c = copies.get(name)
+        if isinstance(c, cif.CIF):
+            x3 = _copy.copy(x)
+            x3.env, x3.sig = {}, tuple(x.sig) + (name,)
+            env.execute(lambda c=c: c.save(io.StringIO()), x3)
+    x4 = _copy.copy(x)
+    x4.env, x4.sig = {}, tuple(x.sig) + ('CIF.copy()',)
+    env.execute(lambda: act.builder.copy().save(io.StringIO()), x4)
+
+
+def _sp_loop_dims(env):
+    """One loop per dim name a caller may choose (the names the writer uses internally among them)."""
+    cif = env.cif
+    content, xitems = [], []
+    for i, d in enumerate(LOOP_DIMS):
+        vals = [f'{d} {j}' for j in range(3)]
+        xs = [0.5 * j + i for j in range(3)]
+        content.append(cif.Loop({f'd{i}.s': sc.array(dims=[d], values=vals),
+                                 f'd{i}.x': sc.array(dims=[d], values=xs, variances=[0.04] * 3, unit='us')}))
+        xitems.append(XItem('loop', [f'd{i}.s', f'd{i}.x'], [[('str', v) for v in vals],
+                                                               [('fvar', v, 0.04, False) for v in xs]]))
+    x = XDoc('lowlevel', 'save_cif:buffer', [XBlock('dims', xitems)], strict=True,
+             sig=('lowlevel', 'forced', 'loop dims'))
+    env.execute(lambda: cif.save_cif(io.StringIO(), cif.Block('dims', content)), x)
+
+
+def _schema_item(names):
+    return XItem('loop', ['audit_conform.dict_name', 'audit_conform.dict_version', 'audit_conform.dict_location'],
+                 [[('str', n) for n in names], [], []], special='schema')
+
+
+def _sp_schema(env):
+    """schema=: one schema, a list, a one-shot iterable; on chunk, loop and block.  The block lists
+    the dictionaries in a loop in front of the content."""
+    cif = env.cif
+    core, pd = cif.CORE_SCHEMA, cif.PD_SCHEMA
+    pair = XItem('pair', ['k.v'], [[('str', 'x')]])
+    loop_x = XItem('loop', ['l.a'], [[('int', 1), ('int', 2)]])
+
+    def col():
+        return {'l.a': sc.array(dims=['r'], values=[1, 2], unit=None)}
+    cases = [
+        ('chunk:core', lambda: cif.Block('s', [cif.Chunk({'k.v': 'x'}, schema=core)]), ['coreCIF'], [pair]),
+        ('chunk:pd', lambda: cif.Block('s', [cif.Chunk({'k.v': 'x'}, schema=pd)]), ['coreCIF', 'pdCIF'], [pair]),
+        ('chunk:list', lambda: cif.Block('s', [cif.Chunk({'k.v': 'x'}, schema=[core, pd])]), ['coreCIF', 'pdCIF'],
+         [pair]),
+        ('chunk:generator', lambda: cif.Block('s', [cif.Chunk({'k.v': 'x'}, schema=(q for q in (pd,)))]),
+         ['coreCIF', 'pdCIF'], [pair]),
+        ('loop:pd', lambda: cif.Block('s', [cif.Loop(col(), schema=pd)]), ['coreCIF', 'pdCIF'], [loop_x]),
+        ('loop:iter', lambda: cif.Block('s', [cif.Loop(col(), schema=iter([core]))]), ['coreCIF'], [loop_x]),
+        ('block:pd', lambda: cif.Block('s', [{'k.v': 'x'}], schema=pd), ['coreCIF', 'pdCIF'], [pair]),
+        ('block:generator+chunk', lambda: cif.Block('s', [cif.Chunk({'k.v': 'x'}, schema=pd), cif.Loop(col())],
+                                                    schema=(q for q in (core,))), ['coreCIF', 'pdCIF'], [pair, loop_x]),
+        ('added_later', lambda: _added_later(cif, pd), ['coreCIF', 'pdCIF'], [pair]),
+    ]
+    for label, make, names, items in cases:
+        blk = make()
+        x = XDoc('lowlevel', 'save_cif:buffer', [XBlock('s', [_schema_item(names), *items])], strict=True,
+                 sig=('lowlevel', 'forced', 'schema', label))
+        env.execute(lambda blk=blk: cif.save_cif(io.StringIO(), blk), x)
+        x2 = _copy.copy(x)
+        x2.env, x2.via, x2.heading = {}, 'Block.write', False
+        env.execute(lambda blk=blk: blk.write(io.StringIO()), x2)
+
+
+def _added_later(cif, schema):
+    blk = cif.Block('s')
+    blk.add(cif.Chunk({'k.v': 'x'}, schema=schema))
+    return blk
+
+
+def _sp_subclasses(env):
+    """Subclasses of Block / Chunk / Loop (some overriding ``write``) are blocks / chunks / loops."""
+    cif = env.cif
+
+    class MyChunk(cif.Chunk):
+        def write(self, f):
+            f.write('# written by a subclass of Chunk\n')
+            super().write(f)
+
+    class MyLoop(cif.Loop):
+        def write(self, f):
+            f.write('# written by a subclass of Loop\n')
+            return super().write(f)
+
+    class MyBlock(cif.Block):
+        def write(self, f):
+            f.write('# written by a subclass of Block\n')
+            super().write(f)
+
+    class PlainBlock(cif.Block):
+        pass
+
+    def content():
+        return [MyChunk({'k.v': 'x y'}, comment='c'), MyLoop({'l.a': sc.array(dims=['r'], values=['p', '#q'])})]
+    items = [XItem('pair', ['k.v'], [[('str', 'x y')]]), XItem('loop', ['l.a'], [[('str', 'p'), ('str', '#q')]])]
+    for label, make in (('items', lambda: cif.Block('sub', content())),
+                        ('block', lambda: MyBlock('sub', content())),
+                        ('plain_block', lambda: PlainBlock('sub', content())),
+                        ('added', lambda: _add_all(MyBlock('sub'), content()))):
+        for form in ('block', 'generator_expression'):
+            blk = make()
+            x = XDoc('lowlevel', 'save_cif:buffer', [XBlock('sub', items)], strict=True,
+                     sig=('lowlevel', 'forced', 'subclass', label, form))
+            env.execute(lambda blk=blk, form=form: cif.save_cif(io.StringIO(), make_content(form, [blk])), x)
+
+
+def _add_all(blk, content):
+    for c in content:
+        blk.add(c)
+    return blk
+
+
+def _sp_targets(env):
+    cif = env.cif
+    for pk in PATH_KINDS:
+        for form in ('block', 'iter(list)'):
+            act, x = simple_lowlevel(cif, 'target', 3, form=form, nblocks=1 if form == 'block' else 2,
+                                     via='save_cif:path')
+            x.sig = tuple(x.sig) + (pk,)
+            t = path_target(pk, env.tmpdir, f'target_{pk}.cif')
+            env.execute(lambda act=act, t=t: act(t), x)
+
+
+def _sp_block_content_forms(env):
+    cif = env.cif
+    for cform in BLOCK_CONTENT_FORMS:
+        entries = [make_chunk(cif, 'mapping', {'k.v': 'x'}, ''),
+                   make_loop(cif, 'Loop(dict,comment=)', {'l.a': sc.array(dims=['r'], values=['p', 'q'])}, ''),
+                   make_chunk(cif, 'mapping:custom', {'k.w': 'y z'}, '')]
+        blk = make_block(cif, 'content', 'Block(name)', '', 'Block(comment=)', entries, 3, cform)
+        x = XDoc('lowlevel', 'save_cif:buffer', [XBlock('content', [
+            XItem('pair', ['k.v'], [[('str', 'x')]]), XItem('loop', ['l.a'], [[('str', 'p'), ('str', 'q')]]),
+            XItem('pair', ['k.w'], [[('str', 'y z')]])])], strict=True,
+            sig=('lowlevel', 'forced', 'Block(content=)', cform))
+        env.execute(lambda blk=blk: cif.save_cif(io.StringIO(), blk), x)
+    for way in MAPPING_WAYS:
+        obj, _, _ = make_chunk(cif, way, {'k.v': 'x', 'k.w': sc.scalar(2.5, unit='K')}, '')
+        x = XDoc('lowlevel', 'save_cif:buffer', [XBlock('content', [
+            XItem('pair', ['k.v'], [[('str', 'x')]]), XItem('pair', ['k.w'], [[('f64', 2.5)]])])], strict=True,
+            sig=('lowlevel', 'forced', 'mapping item', way))
+        env.execute(lambda obj=obj: cif.save_cif(io.StringIO(), cif.Block('content', [obj])), x)
+
+
+def forced_specials():
+    """[(forced class, function(env))]"""
+    out = []
+    for i, form in enumerate(CONTENT_FORM_NAMES + SINGLE_BLOCK_FORMS):
+        out.append((f'content:{form}', _sp_content_form(form, 'buffer' if i % 2 == 0 else 'path')))
+    out += [
+        ('handle:open_text_file:save_cif_and_CIF.save', _sp_open_text_file),
+        ('meta:variable:values_and_refusals', _sp_metadata_values),
+        ('nptypes:values_names_comments', _sp_numpy_types),
+        ('block_name:whitespace_and_length', _sp_block_names),
+        ('block_name:after_refused_assignment', _sp_after_refused_name),
+        ('loop:refused_columns', _sp_loop_refusals),
+        ('second_use:same_objects_and_after_refusal', _sp_second_use),
+        ('interleave:repr_eq_copy_deepcopy_pickle', _sp_interleave),
+        ('dims:loop_every_name', _sp_loop_dims),
+        ('schema:every_form', _sp_schema),
+        ('subclass:write_override', _sp_subclasses),
+        ('target:every_path_kind', _sp_targets),
+        ('forms:Block(content=)_and_mappings', _sp_block_content_forms),
+    ]
+    return out
+
+
+# ======================================================================
 # driver
 # ======================================================================
 N_SHARDS = 16
@@ -1723,10 +3035,17 @@ def requirements(tier):
                    'su_column': 80, 'value_su': 1500, 'document.save_cif': 1500,
                    'document.Block.write': 40, '_quotes_for_string_value': 20000,
                    '_encode_non_ascii': 20000, 'Chunk.write': 1000, 'Loop.write': 1000,
-                   '_serialize_authors': 200, '_serialize_roles': 100, 'CIF.save': 300},
+                   '_serialize_authors': 200, '_serialize_roles': 100, 'CIF.save': 300,
+                   # handles: judged on the text between the positions before and after the call;
+                   # in use = the handle already held text / stood behind position 0 when the call began
+                   'document.handle': 1000, 'document.handle_in_use': 100, 'handle.reused': 40,
+                   'document.concatenation': 30,
+                   # saves after a refused assignment to Block.name / CIF.name (3 kinds of blank x 8 ways of saving)
+                   'after_refused_name': 24},
         'forced': ['str:' + n for n, _ in FORCED] + ['empty_block_name', 'file_comment_non_ascii',
                                                       'loop_50_rows', 'loop_6_columns']
-        + [n for n, _ in forced_programs()] + [s[0] for s in forced_lowlevel()],
+        + [n for n, _ in forced_programs()] + [s[0] for s in forced_lowlevel()]
+        + [n for n, _ in forced_specials()] + forced_session_classes(),
     }
 
 
@@ -1750,9 +3069,10 @@ def run(shard, ctx):
     tr.watch(cif._write_comment, '_write_comment', on_start=mon.on_comment_start,
              on_return=mon.on_comment_return)
     tr.watch(cif.save_cif, 'save_cif', on_start=mon.on_save_start, on_return=mon.on_save_return)
-    tr.watch(cif.CIF.save, 'CIF.save',
+    tr.watch(cif.CIF.save, 'CIF.save', on_start=mon.on_cifsave_start,
              on_return=lambda ev: (ctx.event('CIF.save'), mon.on_cifsave_return(ev)))
-    tr.watch(cif.Block.write, 'Block.write', on_return=mon.on_blockwrite_return)
+    tr.watch(cif.Block.write, 'Block.write', on_start=mon.on_blockwrite_start,
+             on_return=mon.on_blockwrite_return)
     for fn, nm in ((cif._quotes_for_string_value, '_quotes_for_string_value'),
                    (cif._encode_non_ascii, '_encode_non_ascii'), (cif.Chunk.write, 'Chunk.write'),
                    (cif.Loop.write, 'Loop.write'), (cif._serialize_authors, '_serialize_authors'),
@@ -1762,17 +3082,22 @@ def run(shard, ctx):
     tmpdir = tempfile.mkdtemp(prefix='rv-c14-')
     n_samples = 0
 
-    def execute(act, x):
+    def execute(act, x, allow=None):
         nonlocal n_samples
         before = ctx.n_violations
         mon.begin(x)
+        mon.allow_exc = allow
         try:
             act()
         except Exception as e:  # noqa: BLE001  judged by the document monitor through PY_UNWIND
             if mon.judged_docs == 0:
-                ctx.violation('doc_raised_outside_monitors',
-                              f'{x.via}: raised {type(e).__name__}: {e}', x.describe(),
-                              mechanism='raised')
+                if x.report_as is not None:
+                    ctx.violation(x.report_as[0], f'{x.via}: raised {type(e).__name__}: {e}', x.describe(),
+                                  **x.report_as[1])
+                else:
+                    ctx.violation('doc_raised_outside_monitors',
+                                  f'{x.via}: raised {type(e).__name__}: {e}', x.describe(),
+                                  mechanism='raised')
         finally:
             mon.end()
         ctx.case(x.sig, trivial=x.trivial)
@@ -1827,9 +3152,36 @@ def run(shard, ctx):
                 if (i + 7 + seed) % of == index % of:
                     execute(*gen_forced_lowlevel(cif, spec))
                     ctx.hit(spec[0])
-            # (b) + (c) random documents
+            # every form of an iterable of blocks, every kind of target, second uses, refusal paths ...
+            env = types.SimpleNamespace(cif=cif, md=md, ctx=ctx, mon=mon, execute=execute, tmpdir=tmpdir, rng=rng)
+            for i, (fname, fn) in enumerate(forced_specials()):
+                if (i + 3 + seed) % of == index % of:
+                    try:
+                        fn(env)
+                    except Exception as e:  # noqa: BLE001  outside the watched calls: the objects could not be built
+                        ctx.violation('builder_raised', f'{fname}: building the documents raised '
+                                                        f'{type(e).__name__}: {e}', {'forced_class': fname},
+                                      mechanism='builder_raised')
+                    ctx.hit(fname)
+            # call sequences into one open handle
+            for i, (kind, pattern) in enumerate(FORCED_SESSIONS):
+                if (i + 11 + seed) % of == index % of:
+                    fname = f'handle:{kind}:{pattern}'
+                    try:
+                        run_session(env, kind, session_steps(cif, md, pattern, tmpdir, f'fs{i}'), f'fs{i}',
+                                    ('forced', pattern))
+                    except Exception as e:  # noqa: BLE001
+                        ctx.violation('builder_raised', f'{fname}: the call sequence raised outside the '
+                                                        f'watched calls {type(e).__name__}: {e}',
+                                      {'forced_class': fname}, mechanism='builder_raised')
+                    ctx.hit(fname)
+            # (b) + (c) random documents, (e) random call sequences
             for k in range(int(shard['docs'])):
                 try:
+                    if k % 25 == 7:
+                        kind, steps, sig = gen_session(rng, env, k)
+                        run_session(env, kind, steps, f'r{k}', sig)
+                        continue
                     if rng.random() < 0.55:
                         act, x = gen_lowlevel(rng, cif, tmpdir, k)
                     else:
